@@ -1,5 +1,6 @@
 import EAO.Model.SplitStorage
 import EAO.Lemmas.SplitBuild
+import EAO.Lemmas.Textbook
 /-!
 # EAO.Lemmas.SplitStorage — helper lemmas for `EAO.Properties.C14Storage`
 
@@ -130,5 +131,1571 @@ theorem buildStorage_form (p : StorageP) (g : Grid) (T : Nat) (prices : Prices) 
         refine ⟨pr, ?_, fun _ => ⟨rfl, rfl⟩⟩
         subst hA
         simp [storForm, upperRows, lowerRows, nsRows, holdRows, Storage.mapping, h1, h2]
+
+theorem upperRow_sat (p : StorageP) (g : Grid) (n i : Nat) (y : Vec) (hd : p.maxStoreDuration = none) :
+    (upperRow p g n 0 n i).Sat y ↔ sumTo (q p n y) (i + 1) ≤ upRhs p g 0 n i := by
+  unfold upperRow
+  rw [hd]
+  show Row.eval ⟨levelCoeffs p n 0 i, upRhs p g 0 n i, .U⟩ y ≤ _ ↔ _
+  rw [eval_levelCoeffs]
+  have e : 0 + (i + 1 - 0) = i + 1 := by omega
+  rw [e]
+  show sumTo _ _ - 0 ≤ _ ↔ _
+  constructor <;> intro h <;> grind
+
+theorem lowerRow_sat (p : StorageP) (g : Grid) (n i : Nat) (y : Vec) :
+    (lowerRow p g n 0 n i).Sat y ↔ loRhs p g 0 n i ≤ sumTo (q p n y) (i + 1) := by
+  unfold lowerRow
+  show _ ≤ Row.eval ⟨levelCoeffs p n 0 i, loRhs p g 0 n i, .L⟩ y ↔ _
+  rw [eval_levelCoeffs]
+  have e : 0 + (i + 1 - 0) = i + 1 := by omega
+  rw [e]
+  show _ ≤ sumTo _ _ - 0 ↔ _
+  constructor <;> intro h <;> grind
+
+/-- the level rows of an LP storage: the partial sums of the level increments stay between the two right-hand sides -/
+theorem storForm_rows_sat (p : StorageP) (g : Grid) (pr : Nat → Rat) (hd : p.maxStoreDuration = none) (y : Vec) :
+    (∀ r ∈ (storForm p g pr).rows, r.Sat y) ↔
+      ∀ i, i < g.T → loRhs p g 0 g.T i ≤ sumTo (q p g.T y) (i + 1) ∧ sumTo (q p g.T y) (i + 1) ≤ upRhs p g 0 g.T i := by
+  constructor
+  · intro h i hi
+    have hm : i ∈ List.range' 0 g.T := by rw [List.mem_range'_1]; omega
+    exact ⟨(lowerRow_sat p g g.T i y).mp (h _ (List.mem_append_right _ (List.mem_map_of_mem hm))),
+      (upperRow_sat p g g.T i y hd).mp (h _ (List.mem_append_left _ (List.mem_map_of_mem hm)))⟩
+  · intro h r hr
+    rcases List.mem_append.mp hr with hr | hr
+    · obtain ⟨i, hi, rfl⟩ := List.mem_map.mp hr
+      rw [List.mem_range'_1] at hi
+      exact (upperRow_sat p g g.T i y hd).mpr (h i (by omega)).2
+    · obtain ⟨i, hi, rfl⟩ := List.mem_map.mp hr
+      rw [List.mem_range'_1] at hi
+      exact (lowerRow_sat p g g.T i y).mpr (h i (by omega)).1
+
+/-! ## Part D (core): consecutive pieces that each return to the start level -/
+
+def segsFrom (a : Nat) : List Nat → List (Nat × Nat)
+  | [] => []
+  | m :: ms => (a, m) :: segsFrom (a + m) ms
+
+/-- `G` = level minus start level.  If on every piece `[a, a+m)` the level RELATIVE to the piece's start stays in
+    `[-st, sz - st]` and is back at `en - st = 0` at the end of the piece, then so does the level itself. -/
+theorem core (G : Nat → Rat) (st en sz : Rat) (hse : st = en) (h0 : 0 ≤ st) (h1 : st ≤ sz) :
+    ∀ (ms : List Nat) (a : Nat), G a = 0 →
+      (∀ s ∈ segsFrom a ms, ∀ i, i < s.2 →
+        (if i + 1 = s.2 then en - st else -st) ≤ G (s.1 + i + 1) - G s.1 ∧
+        G (s.1 + i + 1) - G s.1 ≤ (if i + 1 = s.2 then en - st else sz - st)) →
+      (∀ t, a < t → t ≤ a + ms.sum → -st ≤ G t ∧ G t ≤ sz - st) ∧ G (a + ms.sum) = 0
+  | [], a, ha, _ => ⟨fun t h1 h2 => by simp at h2; omega, by simpa using ha⟩
+  | m :: ms, a, ha, h => by
+    have hseg := h (a, m) (by simp [segsFrom])
+    have hGm : G (a + m) = 0 := by
+      by_cases hm : m = 0
+      · subst hm; simpa using ha
+      · have := hseg (m - 1) (by show m - 1 < m; omega)
+        have e1 : m - 1 + 1 = m := by omega
+        have e2 : a + (m - 1) + 1 = a + m := by omega
+        simp only [e1, e2, if_true] at this
+        grind
+    obtain ⟨ih1, ih2⟩ := core G st en sz hse h0 h1 ms (a + m) hGm
+      (fun s hs => h s (by simp [segsFrom, hs]))
+    have hsum : a + (m :: ms).sum = a + m + ms.sum := by simp; omega
+    refine ⟨fun t ht1 ht2 => ?_, by rw [hsum]; exact ih2⟩
+    by_cases htm : t ≤ a + m
+    · have := hseg (t - a - 1) (by show t - a - 1 < m; omega)
+      have e2 : a + (t - a - 1) + 1 = t := by omega
+      simp only [e2] at this
+      by_cases hl : t - a - 1 + 1 = m
+      · simp only [hl, if_true] at this
+        grind
+      · simp only [hl, if_false] at this
+        grind
+    · exact ih1 t (by omega) (by rw [← hsum]; exact ht2)
+
+theorem tiles_segs : ∀ (Ps : List (List Nat)) (a N : Nat), Ps.flatten = List.range' a N →
+    (Ps.map List.length).sum = N ∧
+    (∀ P ∈ Ps, ∃ s ∈ segsFrom a (Ps.map List.length), P = List.range' s.1 s.2) ∧
+    (∀ s ∈ segsFrom a (Ps.map List.length), ∃ P ∈ Ps, P = List.range' s.1 s.2)
+  | [], a, N, h => by
+    have : N = 0 := by
+      have := congrArg List.length h
+      simpa using this.symm
+    subst this
+    simp [segsFrom]
+  | P :: rest, a, N, h => by
+    have hlen : P.length + rest.flatten.length = N := by
+      have := congrArg List.length h
+      simpa using this
+    have hsplit : List.range' a N = List.range' a P.length ++ List.range' (a + P.length) (N - P.length) := by
+      rw [List.range'_append_1]
+      congr 1; omega
+    rw [List.flatten_cons, hsplit] at h
+    obtain ⟨hP, hrest⟩ := List.append_inj h (by simp)
+    obtain ⟨i1, i2, i3⟩ := tiles_segs rest (a + P.length) (N - P.length) hrest
+    refine ⟨by simp [i1]; omega, ?_, ?_⟩
+    · intro P' hP'
+      rcases List.mem_cons.mp hP' with rfl | hP'
+      · exact ⟨(a, P'.length), by simp [segsFrom], hP⟩
+      · obtain ⟨s, hs, e⟩ := i2 P' hP'
+        exact ⟨s, by simp [segsFrom, hs], e⟩
+    · intro s hs
+      simp only [List.map_cons, segsFrom, List.mem_cons] at hs
+      rcases hs with rfl | hs
+      · exact ⟨P, by simp, hP⟩
+      · obtain ⟨P', hP', e⟩ := i3 s hs
+        exact ⟨P', by simp [hP'], e⟩
+
+/-! ## Part B2: variables of the LP storage at the steps of an interval; the storage on the picked grid -/
+
+theorem buildStorage_of_form (p : StorageP) (g : Grid) (T : Nat) (prices : Prices) (pr : Nat → Rat)
+    (hg : g.Ok) (hlp : p.lp = true)
+    (hpr : g.T ≠ 0 → priceVec p g T prices = .ok pr ∧ p.nodes.isEmpty = false) :
+    buildStorage p g T prices = .ok (storForm p g pr) := by
+  obtain ⟨h1, h2, h3⟩ := lp_spec p hlp
+  unfold buildStorage
+  by_cases hne : g.dt.length = 0
+  · have hT : g.T = 0 := by rw [← hg.2.1]; exact hne
+    simp only [hne, if_true]
+    congr 1
+    simp [storForm, hT, costVec, lowerVec, upperVec, dispMap, nVars_lp p hlp, nd]
+  · have hT : g.T ≠ 0 := by rw [← hg.2.1]; exact hne
+    obtain ⟨e1, e2⟩ := hpr hT
+    have hb : blocksOf p g.T = .ok [(0, g.T)] := by simp [blocksOf, h3]
+    simp only [hne, if_false, e1, e2, hb, Bool.false_eq_true]
+    congr 1
+    simp [storForm, upperRows, lowerRows, nsRows, holdRows, Storage.mapping, h1, h2]
+
+theorem storForm_n (p : StorageP) (g : Grid) (pr : Nat → Rat) (hlp : p.lp = true) :
+    (storForm p g pr).n = if sep p then g.T + g.T else g.T := by
+  show (costVec p g g.T pr).length = _
+  unfold costVec
+  rw [nVars_lp p hlp]
+  by_cases hs : sep p = true <;> simp [hs]
+
+theorem mem_dispMap_sep (p : StorageP) (g : Grid) (n : Nat) (hs : sep p = true) (m : MapRow) :
+    m ∈ dispMap p g n ↔ ∃ k, k < n ∧
+      (m = { var := k, asset := p.name, node := nodeIn p, kind := .d, step := idxAt g k, factor := 1, isBool := false,
+             varName := "disp_in" } ∨
+       m = { var := n + k, asset := p.name, node := nodeOut p, kind := .d, step := idxAt g k, factor := 1,
+             isBool := false, varName := "disp_out" }) := by
+  unfold dispMap
+  simp only [hs, if_true, List.mem_append, List.mem_map, List.mem_range]
+  constructor
+  · rintro (⟨k, hk, rfl⟩ | ⟨k, hk, rfl⟩)
+    · exact ⟨k, hk, Or.inl rfl⟩
+    · exact ⟨k, hk, Or.inr rfl⟩
+  · rintro ⟨k, hk, rfl | rfl⟩
+    · exact Or.inl ⟨k, hk, rfl⟩
+    · exact Or.inr ⟨k, hk, rfl⟩
+
+theorem mem_dispMap_one (p : StorageP) (g : Grid) (n : Nat) (hs : sep p = false) (m : MapRow) :
+    m ∈ dispMap p g n ↔ ∃ k, k < n ∧
+      m = { var := k, asset := p.name, node := nodeIn p, kind := .d, step := idxAt g k, factor := 1, isBool := false,
+            varName := "disp" } := by
+  unfold dispMap
+  simp only [hs, Bool.false_eq_true, if_false, List.mem_map, List.mem_range]
+  constructor
+  · rintro ⟨k, hk, rfl⟩; exact ⟨k, hk, rfl⟩
+  · rintro ⟨k, hk, rfl⟩; exact ⟨k, hk, rfl⟩
+
+theorem storForm_keep (p : StorageP) (g : Grid) (pr : Nat → Rat) (I : List Nat) (hg : g.Ok) (hlp : p.lp = true) :
+    (storForm p g pr).keep I =
+      if sep p then pos g.idx I ++ (pos g.idx I).map (g.idx.length + ·) else pos g.idx I := by
+  have hT : g.T = g.idx.length := hg.1.symm
+  have hn := storForm_n p g pr hlp
+  by_cases hs : sep p = true
+  · simp only [hs, if_true] at hn ⊢
+    apply keep_two_block _ g.idx I (by rw [hn, hT])
+    · intro v hv
+      show varAtSteps (dispMap p g g.T) I v = true ↔ _
+      rw [varAtSteps_iff]
+      constructor
+      · rintro ⟨m, hm, hv', hst⟩
+        obtain ⟨k, hk, rfl | rfl⟩ := (mem_dispMap_sep p g g.T hs m).mp hm
+        · simp only at hv' hst; subst hv'; exact hst
+        · simp only at hv'; omega
+      · intro h
+        exact ⟨_, (mem_dispMap_sep p g g.T hs _).mpr ⟨v, by omega, Or.inl rfl⟩, rfl, h⟩
+    · intro v hv
+      show varAtSteps (dispMap p g g.T) I (g.idx.length + v) = true ↔ _
+      rw [varAtSteps_iff]
+      constructor
+      · rintro ⟨m, hm, hv', hst⟩
+        obtain ⟨k, hk, rfl | rfl⟩ := (mem_dispMap_sep p g g.T hs m).mp hm
+        · simp only at hv'; omega
+        · simp only at hv' hst
+          have : k = v := by omega
+          subst this; exact hst
+      · intro h
+        exact ⟨_, (mem_dispMap_sep p g g.T hs _).mpr ⟨v, by omega, Or.inr rfl⟩, by simp [hT], h⟩
+  · have hs' : sep p = false := by simpa using hs
+    simp only [hs', Bool.false_eq_true, if_false] at hn ⊢
+    apply keep_one_block _ g.idx I (by rw [hn, hT])
+    intro v hv
+    show varAtSteps (dispMap p g g.T) I v = true ↔ _
+    rw [varAtSteps_iff]
+    constructor
+    · rintro ⟨m, hm, hv', hst⟩
+      obtain ⟨k, hk, rfl⟩ := (mem_dispMap_one p g g.T hs' m).mp hm
+      simp only at hv' hst; subst hv'; exact hst
+    · intro h
+      exact ⟨_, (mem_dispMap_one p g g.T hs' _).mpr ⟨v, by omega, rfl⟩, rfl, h⟩
+
+/-- the per-step data of the picked grid are those of the asset grid at the picked positions -/
+theorem pick_at (g : Grid) (I : List Nat) (hg : g.Ok) (j : Nat) (hj : j < (pos g.idx I).length) :
+    Storage.dtAt (g.pick I) j = Storage.dtAt g ((pos g.idx I).getD j 0) ∧
+    Storage.dfAt (g.pick I) j = Storage.dfAt g ((pos g.idx I).getD j 0) ∧
+    Storage.idxAt (g.pick I) j = I.idxOf (Storage.idxAt g ((pos g.idx I).getD j 0)) := by
+  refine ⟨?_, ?_, ?_⟩
+  · unfold Storage.dtAt
+    rw [pick_dt g I hg]
+    exact getD_map_lt _ _ j 0 0 hj
+  · unfold Storage.dfAt
+    have : (g.pick I).df = (pos g.idx I).map fun i => g.df.getD i 0 :=
+      (pos_map_getD g.idx I g.df 0 (by rw [hg.2.2, hg.1])).symm
+    rw [this]
+    exact getD_map_lt _ _ j 0 0 hj
+  · unfold Storage.idxAt
+    rw [pick_idx g I]
+    exact getD_map_lt _ _ j 0 0 hj
+
+theorem pick_T' (g : Grid) (I : List Nat) (hg : g.Ok) : (g.pick I).T = (pos g.idx I).length := pick_T g I hg
+
+theorem pos_getD_mem (idx I : List Nat) (j : Nat) (hj : j < (pos idx I).length) :
+    (pos idx I).getD j 0 < idx.length ∧ idx.getD ((pos idx I).getD j 0) 0 ∈ I := by
+  have : (pos idx I).getD j 0 ∈ pos idx I := by
+    rw [List.getD_eq_getElem?_getD, List.getElem?_eq_getElem hj]
+    exact List.getElem_mem hj
+  exact (mem_pos idx I _).mp this
+
+/-- the storage set up in the interval is the explicit LP form on the picked grid; its price vector is the unsplit
+    one at the picked positions -/
+theorem storageOn_form (p : StorageP) (g : Grid) (T : Nat) (prices : Prices) (pr : Nat → Rat) (I : List Nat)
+    (hg : g.Ok) (hlp : p.lp = true) (hpr : g.T ≠ 0 → priceVec p g T prices = .ok pr ∧ p.nodes.isEmpty = false) :
+    ∃ prI, buildStorage p (g.pick I) I.length (pickPrices I prices) = .ok (storForm p (g.pick I) prI) ∧
+      storageOn p g prices I = storForm p (g.pick I) prI ∧
+      ∀ j, j < (pos g.idx I).length → prI j = pr ((pos g.idx I).getD j 0) := by
+  have hgI := pick_ok g I hg
+  have hTI := pick_T g I hg
+  by_cases h0 : (g.pick I).T = 0
+  · have hb := buildStorage_of_form p (g.pick I) I.length (pickPrices I prices) (fun _ => 0) hgI hlp (fun h => absurd h0 h)
+    refine ⟨fun _ => 0, hb, ?_, fun j hj => by rw [← hTI, h0] at hj; omega⟩
+    unfold storageOn
+    rw [hb]
+  · have hgT : g.T ≠ 0 := by
+      intro h
+      apply h0
+      rw [hTI]
+      have : g.idx.length = 0 := by rw [hg.1]; exact h
+      simp [pos, this]
+    obtain ⟨e1, e2⟩ := hpr hgT
+    -- the price vector in the interval
+    have hex : ∃ prI, priceVec p (g.pick I) I.length (pickPrices I prices) = .ok prI ∧
+        ∀ j, j < (pos g.idx I).length → prI j = pr ((pos g.idx I).getD j 0) := by
+      unfold priceVec at e1 ⊢
+      cases hk : p.price with
+      | none =>
+        simp only [hk] at e1 ⊢
+        injection e1 with e1
+        exact ⟨fun _ => 0, rfl, fun j _ => by rw [← e1]⟩
+      | some k =>
+        simp only [hk, lookup_pickPrices] at e1 ⊢
+        cases hl : prices.lookup k with
+        | none => simp [hl] at e1
+        | some arr =>
+          simp only [hl, Option.map_some] at e1 ⊢
+          by_cases hlen : arr.length ≠ T
+          · simp [hlen] at e1
+          · simp only [hlen, if_false] at e1
+            injection e1 with e1
+            refine ⟨fun i => (I.map fun t => arr.getD t 0).getD (Storage.idxAt (g.pick I) i) 0, ?_, fun j hj => ?_⟩
+            · simp only [List.length_map, ne_eq, not_true, if_false]
+              rfl
+            rw [← e1]
+            obtain ⟨_, hmem⟩ := pos_getD_mem g.idx I j hj
+            show (List.map (fun t => arr.getD t 0) I).getD (Storage.idxAt (g.pick I) j) 0 = _
+            rw [(pick_at g I hg j hj).2.2]
+            exact getD_map_idxOf I (fun t => arr.getD t 0) _ hmem
+    obtain ⟨prI, hp1, hp2⟩ := hex
+    have hb := buildStorage_of_form p (g.pick I) I.length (pickPrices I prices) prI hgI hlp (fun _ => ⟨hp1, e2⟩)
+    refine ⟨prI, hb, ?_, hp2⟩
+    unfold storageOn
+    rw [hb]
+
+/-! ## Part D: the rows of the interval storages, read on the unsplit variables -/
+
+theorem range'_getD (a m j : Nat) (h : j < m) : (List.range' a m).getD j 0 = a + j := by
+  simp [List.getD_eq_getElem?_getD, List.getElem?_range', h]
+
+/-- the variable of the unsplit storage behind variable `j` of the interval storage -/
+theorem keep_getD (p : StorageP) (g : Grid) (pr : Nat → Rat) (I : List Nat) (hg : g.Ok) (hlp : p.lp = true)
+    (a m : Nat) (hP : pos g.idx I = List.range' a m) (j : Nat) (hj : j < m) :
+    ((storForm p g pr).keep I).getD j 0 = a + j ∧
+    (sep p = true → ((storForm p g pr).keep I).getD (m + j) 0 = g.T + (a + j)) := by
+  rw [storForm_keep p g pr I hg hlp, hP]
+  have hT : g.T = g.idx.length := hg.1.symm
+  by_cases hs : sep p = true
+  · simp only [hs, if_true]
+    refine ⟨?_, fun _ => ?_⟩
+    · rw [List.getD_eq_getElem?_getD, List.getElem?_append_left (by simpa using hj),
+        ← List.getD_eq_getElem?_getD, range'_getD a m j hj]
+    · rw [List.getD_eq_getElem?_getD, List.getElem?_append_right (by simp)]
+      simp only [List.length_range', Nat.add_sub_cancel_left]
+      rw [← List.getD_eq_getElem?_getD, getD_map_lt _ _ j 0 0 (by simpa using hj), range'_getD a m j hj, hT]
+  · simp only [hs, Bool.false_eq_true, if_false]
+    exact ⟨range'_getD a m j hj, fun h => absurd h (by simp)⟩
+
+theorem q_lift (p : StorageP) (g : Grid) (pr : Nat → Rat) (I : List Nat) (hg : g.Ok) (hlp : p.lp = true)
+    (a m : Nat) (hP : pos g.idx I = List.range' a m) (y : Vec) (j : Nat) (hj : j < m) :
+    q p m (fun v => y (((storForm p g pr).keep I).getD v 0)) j = q p g.T y (a + j) := by
+  obtain ⟨h1, h2⟩ := keep_getD p g pr I hg hlp a m hP j hj
+  unfold q
+  by_cases hs : sep p = true
+  · simp only [hs, if_true]
+    rw [h1, h2 hs]
+  · simp only [hs, Bool.false_eq_true, if_false]
+    rw [h1]
+
+theorem blockInfl_zero (p : StorageP) (g : Grid) (i : Nat) : blockInfl p g 0 i = cumInfl p g (i + 1) := by
+  show sumTo (infl p g) (i + 1) - 0 = sumTo (infl p g) (i + 1)
+  grind
+
+theorem cumInfl_pick (p : StorageP) (g : Grid) (I : List Nat) (hg : g.Ok) (a m : Nat)
+    (hP : pos g.idx I = List.range' a m) (k : Nat) (hk : k ≤ m) :
+    cumInfl p (g.pick I) k = cumInfl p g (a + k) - cumInfl p g a := by
+  unfold cumInfl
+  rw [← sumTo_shift]
+  apply sumTo_congr
+  intro j hj
+  unfold infl
+  have hj' : j < (pos g.idx I).length := by rw [hP]; simp; omega
+  rw [(pick_at g I hg j hj').1, hP, range'_getD a m j (by omega)]
+
+/-- the level rows of the storage built in an interval, written with the unsplit variables: the partial sums FROM
+    THE INTERVAL'S FIRST STEP stay between the right-hand sides of a storage that starts at `start_level` there -/
+theorem lift_rows_sat (p : StorageP) (g : Grid) (pr prI : Nat → Rat) (I : List Nat) (hg : g.Ok) (hlp : p.lp = true)
+    (a m : Nat) (hP : pos g.idx I = List.range' a m) (y : Vec) :
+    (∀ r ∈ liftRows (storForm p g pr) I (storForm p (g.pick I) prI), r.Sat y) ↔
+      ∀ i, i < m →
+        (if i + 1 = m then p.endLevel - p.startLevel else -p.startLevel) ≤
+          (sumTo (q p g.T y) (a + i + 1) + cumInfl p g (a + i + 1)) - (sumTo (q p g.T y) a + cumInfl p g a) ∧
+        (sumTo (q p g.T y) (a + i + 1) + cumInfl p g (a + i + 1)) - (sumTo (q p g.T y) a + cumInfl p g a) ≤
+          (if i + 1 = m then p.endLevel - p.startLevel else p.size - p.startLevel) := by
+  obtain ⟨_, hd, _⟩ := lp_spec p hlp
+  have hm : (g.pick I).T = m := by rw [pick_T g I hg, hP]; simp
+  have h1 : (∀ r ∈ liftRows (storForm p g pr) I (storForm p (g.pick I) prI), r.Sat y) ↔
+      ∀ r ∈ (storForm p (g.pick I) prI).rows, r.Sat (fun v => y (((storForm p g pr).keep I).getD v 0)) := by
+    unfold liftRows
+    constructor
+    · intro h r hr
+      exact (sat_rename r _ y).mp (h _ (List.mem_map_of_mem hr))
+    · intro h r hr
+      obtain ⟨r', hr', rfl⟩ := List.mem_map.mp hr
+      exact (sat_rename r' _ y).mpr (h r' hr')
+  rw [h1, storForm_rows_sat p (g.pick I) prI hd, hm]
+  have hS : ∀ i, i < m → sumTo (q p m (fun v => y (((storForm p g pr).keep I).getD v 0))) (i + 1) =
+      sumTo (q p g.T y) (a + i + 1) - sumTo (q p g.T y) a := by
+    intro i hi
+    rw [sumTo_congr _ (fun j => q p g.T y (a + j)) (i + 1)
+      (fun j hj => q_lift p g pr I hg hlp a m hP y j (by omega)), sumTo_shift]
+    rfl
+  have hF : ∀ i, i < m → blockInfl p (g.pick I) 0 i = cumInfl p g (a + i + 1) - cumInfl p g a := by
+    intro i hi
+    rw [blockInfl_zero, cumInfl_pick p g I hg a m hP (i + 1) (by omega)]
+    rfl
+  have hbs : blockStart p 0 = p.startLevel := by simp [blockStart]
+  constructor
+  · intro h i hi
+    obtain ⟨g1, g2⟩ := h i hi
+    rw [hS i hi] at g1 g2
+    unfold loRhs at g1
+    unfold upRhs at g2
+    rw [hF i hi, hbs] at g1 g2
+    by_cases he : i + 1 = m
+    · simp only [he, if_true] at g1 g2 ⊢
+      constructor <;> grind
+    · simp only [he, if_false] at g1 g2 ⊢
+      constructor <;> grind
+  · intro h i hi
+    obtain ⟨g1, g2⟩ := h i hi
+    rw [hS i hi]
+    unfold loRhs upRhs
+    rw [hF i hi, hbs]
+    by_cases he : i + 1 = m
+    · simp only [he, if_true] at g1 g2 ⊢
+      constructor <;> grind
+    · simp only [he, if_false] at g1 g2 ⊢
+      constructor <;> grind
+
+/-- **start level = end level in `[0, size]`**: if the level rows of every interval storage hold (on the unsplit
+    variables), the cumulative level rows of the unsplit storage hold -/
+theorem restart_rows_imply (p : StorageP) (g : Grid) (pr : Nat → Rat) (prI : List Nat → Nat → Rat)
+    (Is : List (List Nat)) (hg : g.Ok) (hlp : p.lp = true) (hlev : p.levelOK = true) (ht : tiles g Is = true)
+    (y : Vec)
+    (h : ∀ I ∈ Is, ∀ r ∈ liftRows (storForm p g pr) I (storForm p (g.pick I) (prI I)), r.Sat y) :
+    ∀ r ∈ (storForm p g pr).rows, r.Sat y := by
+  obtain ⟨_, hd, _⟩ := lp_spec p hlp
+  unfold StorageP.levelOK at hlev
+  simp only [Bool.and_eq_true, decide_eq_true_eq] at hlev
+  obtain ⟨⟨hse, h0⟩, h1⟩ := hlev
+  unfold tiles at ht
+  simp only [decide_eq_true_eq] at ht
+  rw [List.range_eq_range'] at ht
+  obtain ⟨t1, _, t3⟩ := tiles_segs (Is.map g.posIn) 0 g.T ht
+  let G : Nat → Rat := fun t => sumTo (q p g.T y) t + cumInfl p g t
+  have hG0 : G 0 = 0 := by show (0 : Rat) + 0 = 0; grind
+  have hc := core G p.startLevel p.endLevel p.size hse h0 h1 ((Is.map g.posIn).map List.length) 0 hG0 (by
+    intro s hs i hi
+    obtain ⟨P, hP, hPe⟩ := t3 s hs
+    obtain ⟨I, hI, rfl⟩ := List.mem_map.mp hP
+    have := (lift_rows_sat p g pr (prI I) I hg hlp s.1 s.2 hPe y).mp (h I hI) i hi
+    exact this)
+  rw [t1, Nat.zero_add] at hc
+  obtain ⟨c1, c2⟩ := hc
+  rw [storForm_rows_sat p g pr hd]
+  intro i hi
+  obtain ⟨b1, b2⟩ := c1 (i + 1) (by omega) (by omega)
+  have hbs : blockStart p 0 = p.startLevel := by simp [blockStart]
+  unfold loRhs upRhs
+  rw [blockInfl_zero, hbs]
+  by_cases he : i + 1 = g.T
+  · simp only [he, if_true]
+    have : G (i + 1) = 0 := by rw [he]; exact c2
+    constructor <;> grind
+  · simp only [he, if_false]
+    constructor <;> grind
+
+/-! ## Part C: the restart form is banded, its rows stay inside the intervals -/
+
+theorem mem_dispMap (p : StorageP) (g : Grid) (n : Nat) (m : MapRow) (hm : m ∈ dispMap p g n) :
+    ∃ k, k < n ∧ m.step = Storage.idxAt g k ∧ m.isBool = false ∧ (m.var = k ∨ (sep p = true ∧ m.var = n + k)) := by
+  by_cases hs : sep p = true
+  · obtain ⟨k, hk, rfl | rfl⟩ := (mem_dispMap_sep p g n hs m).mp hm
+    · exact ⟨k, hk, rfl, rfl, Or.inl rfl⟩
+    · exact ⟨k, hk, rfl, rfl, Or.inr ⟨hs, rfl⟩⟩
+  · have hs' : sep p = false := by simpa using hs
+    obtain ⟨k, hk, rfl⟩ := (mem_dispMap_one p g n hs' m).mp hm
+    exact ⟨k, hk, rfl, rfl, Or.inl rfl⟩
+
+theorem storForm_rows_ok (p : StorageP) (g : Grid) (pr : Nat → Rat) (hlp : p.lp = true) :
+    ∀ r ∈ (storForm p g pr).rows, r.coeffs ≠ [] ∧ ∀ q ∈ r.coeffs, q.1 < (storForm p g pr).n := by
+  obtain ⟨_, hd, _⟩ := lp_spec p hlp
+  have hn := storForm_n p g pr hlp
+  have hlc : ∀ i, i < g.T → levelCoeffs p g.T 0 i ≠ [] ∧ ∀ q ∈ levelCoeffs p g.T 0 i, q.1 < (storForm p g pr).n := by
+    intro i hi
+    unfold levelCoeffs
+    by_cases hs : sep p = true
+    · simp only [hs, if_true] at hn ⊢
+      refine ⟨?_, ?_⟩
+      · have : i + 1 - 0 = (i + 1 - 0 - 1) + 1 := by omega
+        rw [this, List.range'_succ]
+        simp
+      · intro q hq
+        rcases List.mem_append.mp hq with hq | hq
+        · obtain ⟨j, hj, rfl⟩ := List.mem_map.mp hq
+          rw [List.mem_range'_1] at hj
+          show j < _
+          omega
+        · obtain ⟨j, hj, rfl⟩ := List.mem_map.mp hq
+          rw [List.mem_range'_1] at hj
+          show g.T + j < _
+          omega
+    · simp only [hs, Bool.false_eq_true, if_false] at hn ⊢
+      refine ⟨?_, ?_⟩
+      · have : i + 1 - 0 = (i + 1 - 0 - 1) + 1 := by omega
+        rw [this, List.range'_succ]
+        simp
+      · intro q hq
+        obtain ⟨j, hj, rfl⟩ := List.mem_map.mp hq
+        rw [List.mem_range'_1] at hj
+        show j < _
+        omega
+  intro r hr
+  rcases List.mem_append.mp hr with hr | hr
+  · obtain ⟨i, hi, rfl⟩ := List.mem_map.mp hr
+    rw [List.mem_range'_1] at hi
+    unfold upperRow
+    rw [hd]
+    exact hlc i (by omega)
+  · obtain ⟨i, hi, rfl⟩ := List.mem_map.mp hr
+    rw [List.mem_range'_1] at hi
+    exact hlc i (by omega)
+
+theorem storForm_banded (p : StorageP) (g : Grid) (pr : Nat → Rat) (Tref : Nat) (hg : g.Ok) (hlp : p.lp = true)
+    (hidx : ∀ t ∈ g.idx, t < Tref) (R : List Row)
+    (hR : ∀ r ∈ R, r.coeffs ≠ [] ∧ ∀ q ∈ r.coeffs, q.1 < (storForm p g pr).n) :
+    Banded ({ storForm p g pr with rows := R } : AssetProblem) Tref := by
+  have hn := storForm_n p g pr hlp
+  have hT : g.T = g.idx.length := hg.1.symm
+  have hN : ({ storForm p g pr with rows := R } : AssetProblem).n = (storForm p g pr).n := rfl
+  have hnv := nVars_lp p hlp g.T
+  refine ⟨?_, ?_, ?_, ?_, ?_, ?_, ?_, hR⟩
+  · rw [hN, hn]
+    show (lowerVec p g g.T).length = _
+    unfold lowerVec
+    rw [hnv]
+    by_cases hs : sep p = true <;> simp [hs]
+  · rw [hN, hn]
+    show (upperVec p g g.T).length = _
+    unfold upperVec
+    rw [hnv]
+    by_cases hs : sep p = true <;> simp [hs]
+  · intro m hm
+    obtain ⟨k, hk, _, _, hv | ⟨hs, hv⟩⟩ := mem_dispMap p g g.T m hm
+    · rw [hN, hn, hv]; split <;> omega
+    · rw [hN, hn, hv]; simp only [hs, if_true]; omega
+  · intro m hm
+    obtain ⟨k, hk, hst, _, _⟩ := mem_dispMap p g g.T m hm
+    rw [hst]
+    unfold Storage.idxAt
+    rw [List.getD_eq_getElem?_getD, List.getElem?_eq_getElem (by omega)]
+    exact hidx _ (List.getElem_mem _)
+  · intro m hm
+    obtain ⟨_, _, _, hb, _⟩ := mem_dispMap p g g.T m hm
+    exact hb
+  · intro m hm m' hm' hv
+    obtain ⟨k, hk, hst, _, h1⟩ := mem_dispMap p g g.T m hm
+    obtain ⟨k', hk', hst', _, h1'⟩ := mem_dispMap p g g.T m' hm'
+    have : k = k' := by
+      rcases h1 with h | ⟨_, h⟩ <;> rcases h1' with h' | ⟨_, h'⟩ <;> omega
+    rw [hst, hst', this]
+  · intro v hv
+    rw [hN, hn] at hv
+    by_cases hs : sep p = true
+    · simp only [hs, if_true] at hv
+      by_cases hlt : v < g.T
+      · exact ⟨_, (mem_dispMap_sep p g g.T hs _).mpr ⟨v, hlt, Or.inl rfl⟩, rfl⟩
+      · refine ⟨_, (mem_dispMap_sep p g g.T hs _).mpr ⟨v - g.T, by omega, Or.inr rfl⟩, ?_⟩
+        show g.T + (v - g.T) = v
+        omega
+    · have hs' : sep p = false := by simpa using hs
+      simp only [hs', Bool.false_eq_true, if_false] at hv
+      exact ⟨_, (mem_dispMap_one p g g.T hs' _).mpr ⟨v, hv, rfl⟩, rfl⟩
+
+theorem getD_mem_of_lt (L : List Nat) (j : Nat) (h : j < L.length) : L.getD j 0 ∈ L := by
+  rw [List.getD_eq_getElem?_getD, List.getElem?_eq_getElem h]
+  exact List.getElem_mem h
+
+/-- number of variables of the interval storage = number of unsplit variables at the interval's steps -/
+theorem keep_length (p : StorageP) (g : Grid) (pr prI : Nat → Rat) (I : List Nat) (hg : g.Ok) (hlp : p.lp = true) :
+    ((storForm p g pr).keep I).length = (storForm p (g.pick I) prI).n := by
+  rw [storForm_keep p g pr I hg hlp, storForm_n p (g.pick I) prI hlp, pick_T g I hg]
+  by_cases hs : sep p = true <;> simp [hs]
+
+/-- the rows of the restart form: non-empty, over the variables at the steps of their interval -/
+theorem restart_rows (p : StorageP) (g : Grid) (pr : Nat → Rat) (prI : List Nat → Nat → Rat) (Is : List (List Nat))
+    (hg : g.Ok) (hlp : p.lp = true) :
+    ∀ r ∈ (Is.flatMap fun I => liftRows (storForm p g pr) I (storForm p (g.pick I) (prI I))),
+      r.coeffs ≠ [] ∧ ∃ I ∈ Is, ∀ q ∈ r.coeffs, q.1 ∈ (storForm p g pr).keep I := by
+  intro r hr
+  obtain ⟨I, hI, hr⟩ := List.mem_flatMap.mp hr
+  obtain ⟨r', hr', rfl⟩ := List.mem_map.mp hr
+  obtain ⟨h1, h2⟩ := storForm_rows_ok p (g.pick I) (prI I) hlp r' hr'
+  refine ⟨by simpa [Row.rename] using h1, I, hI, fun q hq => ?_⟩
+  obtain ⟨q', hq', rfl⟩ := List.mem_map.mp hq
+  exact getD_mem_of_lt _ _ (by rw [keep_length p g pr (prI I) I hg hlp]; exact h2 q' hq')
+
+/-! ### restricting lifted rows -/
+
+theorem idxOf_getD (L : List Nat) (hL : L.Nodup) (j : Nat) (h : j < L.length) : L.idxOf (L.getD j 0) = j := by
+  rw [List.getD_eq_getElem?_getD, List.getElem?_eq_getElem h]
+  exact hL.idxOf_getElem j h
+
+/-- the rows of the interval problems of OTHER intervals vanish under the restriction, those of the interval itself
+    come back as they were -/
+theorem restrict_liftRows (A : AssetProblem) (B : List Nat → AssetProblem) (Is : List (List Nat)) (I : List Nat)
+    (hI : I ∈ Is) (hd : Is.Pairwise fun I J => ∀ v ∈ A.keep I, v ∉ A.keep J)
+    (hrows : ∀ I' ∈ Is, ∀ r ∈ (B I').rows, r.coeffs ≠ [] ∧ ∀ q ∈ r.coeffs, q.1 < (A.keep I').length) :
+    restrictRows A I (Is.flatMap fun I' => liftRows A I' (B I')) = (B I).rows := by
+  obtain ⟨pre, post, rfl⟩ := List.append_of_mem hI
+  have hother : ∀ I' ∈ pre ++ post, restrictRows A I (liftRows A I' (B I')) = [] := by
+    intro I' hI'
+    have hdis : ∀ v ∈ A.keep I', v ∉ A.keep I := by
+      rw [List.pairwise_append] at hd
+      obtain ⟨_, h2, h3⟩ := hd
+      rcases List.mem_append.mp hI' with h | h
+      · exact h3 I' h I (by simp)
+      · have := (List.pairwise_cons.mp h2).1 I' h
+        intro v hv hv'
+        exact this v hv' hv
+    unfold restrictRows
+    rw [List.map_eq_nil_iff, List.filter_eq_nil_iff]
+    intro r hr
+    obtain ⟨r', hr', rfl⟩ := List.mem_map.mp hr
+    obtain ⟨h1, h2⟩ := hrows I' (by
+      rcases List.mem_append.mp hI' with h | h
+      · exact List.mem_append_left _ h
+      · exact List.mem_append_right _ (List.mem_cons_of_mem _ h)) r' hr'
+    obtain ⟨q, rest, hq⟩ := List.exists_cons_of_ne_nil h1
+    intro hall
+    simp only [Row.rename, hq, List.map_cons, List.all_cons, Bool.and_eq_true] at hall
+    have hmem := getD_mem_of_lt (A.keep I') q.1 (h2 q (by rw [hq]; simp))
+    exact hdis _ hmem (List.contains_iff_mem.mp hall.1)
+  have hnil : ∀ L : List (List Nat), (∀ I' ∈ L, restrictRows A I (liftRows A I' (B I')) = []) →
+      restrictRows A I (L.flatMap fun I' => liftRows A I' (B I')) = [] := by
+    intro L
+    induction L with
+    | nil => intro _; rfl
+    | cons x xs ih =>
+      intro h
+      rw [List.flatMap_cons, restrictRows_append, h x (by simp), ih (fun I' hI' => h I' (by simp [hI']))]
+      rfl
+  rw [List.flatMap_append, List.flatMap_cons, restrictRows_append, restrictRows_append,
+    hnil pre (fun I' h => hother I' (List.mem_append_left _ h)),
+    hnil post (fun I' h => hother I' (List.mem_append_right _ h)), List.nil_append, List.append_nil]
+  -- the interval's own rows
+  have hown := hrows I (by simp)
+  unfold restrictRows liftRows
+  have hfil : ((B I).rows.map (Row.rename fun j => (A.keep I).getD j 0)).filter
+      (fun r => r.coeffs.all fun q => (A.keep I).contains q.1) =
+      (B I).rows.map (Row.rename fun j => (A.keep I).getD j 0) := by
+    rw [List.filter_eq_self]
+    intro r hr
+    obtain ⟨r', hr', rfl⟩ := List.mem_map.mp hr
+    rw [List.all_eq_true]
+    intro q hq
+    obtain ⟨q', hq', rfl⟩ := List.mem_map.mp hq
+    exact List.contains_iff_mem.mpr (getD_mem_of_lt _ _ ((hown r' hr').2 q' hq'))
+  rw [hfil, List.map_map]
+  conv => rhs; rw [← List.map_id (B I).rows]
+  apply List.map_congr_left
+  intro r hr
+  show (r.rename _).rename _ = r
+  rw [rename_rename]
+  have : r.rename (fun v => (A.keep I).idxOf ((A.keep I).getD v 0)) = r.rename id :=
+    rename_congr _ _ r (fun q hq => idxOf_getD _ (keep_nodup A I) _ ((hown r hr).2 q hq))
+  rw [this]
+  cases r
+  simp [Row.rename]
+
+/-! ### vectors and mapping of the restricted LP storage -/
+
+theorem map_getD_range (P : List Nat) (n : Nat) (F : Nat → Rat) (tl : List Rat) (h : ∀ i ∈ P, i < n) :
+    P.map (fun v => ((List.range n).map F ++ tl).getD v 0) = P.map F := by
+  apply List.map_congr_left
+  intro i hi
+  have := h i hi
+  rw [List.getD_eq_getElem?_getD, List.getElem?_append_left (by simpa using this)]
+  simp [this]
+
+theorem map_getD_range2 (P : List Nat) (n : Nat) (F1 F2 : Nat → Rat) (tl : List Rat) (h : ∀ i ∈ P, i < n) :
+    (P.map (n + ·)).map (fun v => ((List.range n).map F1 ++ ((List.range n).map F2 ++ tl)).getD v 0) = P.map F2 := by
+  rw [List.map_map]
+  apply List.map_congr_left
+  intro i hi
+  have := h i hi
+  simp only [Function.comp]
+  rw [List.getD_eq_getElem?_getD, List.getElem?_append_right (by simp)]
+  simp only [List.length_map, List.length_range, Nat.add_sub_cancel_left]
+  rw [List.getElem?_append_left (by simpa using this)]
+  simp [this]
+
+theorem range_map_getD {β} (P : List Nat) (F' : Nat → β) (F : Nat → β) (h : ∀ j, j < P.length → F' j = F (P.getD j 0)) :
+    (List.range P.length).map F' = P.map F := by
+  apply List.ext_getElem
+  · simp
+  · intro j h1 h2
+    have hj : j < P.length := by simpa using h2
+    simp only [List.getElem_map, List.getElem_range]
+    rw [h j hj, List.getD_eq_getElem?_getD, List.getElem?_eq_getElem hj]
+    rfl
+
+theorem vec_restrict (sepb : Bool) (n : Nat) (P : List Nat) (hPn : ∀ i ∈ P, i < n) (F0 F1 F2 F0' F1' F2' : Nat → Rat)
+    (h0 : ∀ j, j < P.length → F0' j = F0 (P.getD j 0))
+    (h1 : ∀ j, j < P.length → F1' j = F1 (P.getD j 0)) (h2 : ∀ j, j < P.length → F2' j = F2 (P.getD j 0)) :
+    (if sepb then P ++ P.map (n + ·) else P).map
+        (fun v => ((if sepb then (List.range n).map F1 ++ (List.range n).map F2 else (List.range n).map F0) ++ []).getD v 0) =
+      (if sepb then (List.range P.length).map F1' ++ (List.range P.length).map F2'
+       else (List.range P.length).map F0') ++ [] := by
+  cases sepb
+  · simp only [Bool.false_eq_true, if_false, List.append_nil]
+    rw [range_map_getD P F0' F0 h0]
+    have := map_getD_range P n F0 [] hPn
+    simpa using this
+  · simp only [if_true, List.append_nil, List.map_append]
+    rw [range_map_getD P F1' F1 h1, range_map_getD P F2' F2 h2]
+    congr 1
+    · have := map_getD_range P n F1 ((List.range n).map F2) hPn
+      simpa using this
+    · have := map_getD_range2 P n F1 F2 [] hPn
+      simpa using this
+
+theorem storeTail_zero (p : StorageP) (g : Grid) (n i : Nat) (h : p.costStore = 0) : (storeTail p g n).getD i 0 = 0 := by
+  unfold storeTail
+  simp only [h, if_true]
+  rw [List.getD_eq_getElem?_getD]
+  by_cases hi : i < n
+  · simp [hi]
+  · simp [hi]
+
+theorem filter_map_range_pos (g : Grid) (I : List Nat) (R : Nat → MapRow) (hR : ∀ k, (R k).step = Storage.idxAt g k) :
+    ((List.range g.idx.length).map R).filter (fun m => I.contains m.step) = (pos g.idx I).map R := by
+  rw [List.filter_map]
+  congr 1
+  unfold pos
+  apply List.filter_congr
+  intro k _
+  simp only [Function.comp, hR]
+  rfl
+
+/-- **the restart form restricted to an interval IS the storage built in that interval** -/
+theorem restart_restrict (p : StorageP) (g : Grid) (pr : Nat → Rat) (prI : List Nat → Nat → Rat)
+    (Is : List (List Nat)) (I : List Nat) (hg : g.Ok) (hlp : p.lp = true) (hcs : p.costStore = 0) (hI : I ∈ Is)
+    (hd : Is.Pairwise fun I J => ∀ v ∈ (storForm p g pr).keep I, v ∉ (storForm p g pr).keep J)
+    (hprI : ∀ j, j < (pos g.idx I).length → prI I j = pr ((pos g.idx I).getD j 0)) :
+    ((storForm p g pr).withIntervalRows Is (fun I' => storForm p (g.pick I') (prI I'))).restrictTo I =
+      storForm p (g.pick I) (prI I) := by
+  have hk := storForm_keep p g pr I hg hlp
+  have hT : g.T = g.idx.length := hg.1.symm
+  have hm := pick_T g I hg
+  have hPn : ∀ i ∈ pos g.idx I, i < g.T := fun i hi => by rw [hT]; exact ((mem_pos g.idx I i).mp hi).1
+  have hnv := nVars_lp p hlp
+  have hat := pick_at g I hg
+  rw [← hT] at hk
+  refine restrictTo_eq _ _ I rfl rfl ?_ ?_ ?_ ?_ ?_
+  · show ((storForm p g pr).keep I).map (fun v => (costVec p g g.T pr).getD v 0) =
+      costVec p (g.pick I) (g.pick I).T (prI I)
+    rw [hk, hm]
+    unfold costVec
+    simp only [hnv, Nat.sub_self, List.range_zero, List.map_nil, storeTail_zero p _ _ _ hcs]
+    refine vec_restrict (sep p) g.T (pos g.idx I) hPn _ _ _ _ _ _ (fun j hj => ?_) (fun j hj => ?_) (fun j hj => ?_)
+    · simp only [hprI j hj, (hat j hj).2.1]
+    · simp only [hprI j hj, (hat j hj).2.1]
+    · simp only [hprI j hj, (hat j hj).2.1]
+  · show ((storForm p g pr).keep I).map (fun v => (lowerVec p g g.T).getD v 0) = lowerVec p (g.pick I) (g.pick I).T
+    rw [hk, hm]
+    unfold lowerVec
+    simp only [hnv, Nat.sub_self, List.range_zero, List.map_nil]
+    refine vec_restrict (sep p) g.T (pos g.idx I) hPn _ _ _ _ _ _ (fun j hj => ?_) (fun j hj => ?_) (fun j hj => ?_)
+    · simp only [cp, (hat j hj).1]
+    · simp only [cp, (hat j hj).1]
+    · rfl
+  · show ((storForm p g pr).keep I).map (fun v => (upperVec p g g.T).getD v 0) = upperVec p (g.pick I) (g.pick I).T
+    rw [hk, hm]
+    unfold upperVec
+    simp only [hnv, Nat.sub_self, List.range_zero, List.map_nil]
+    refine vec_restrict (sep p) g.T (pos g.idx I) hPn _ _ _ _ _ _ (fun j hj => ?_) (fun j hj => ?_) (fun j hj => ?_)
+    · simp only [ct, (hat j hj).1]
+    · rfl
+    · simp only [ct, (hat j hj).1]
+  · exact restrict_liftRows (storForm p g pr) _ Is I hI hd (fun I' hI' r hr => by
+      obtain ⟨h1, h2⟩ := storForm_rows_ok p (g.pick I') (prI I') hlp r hr
+      exact ⟨h1, fun q hq => by rw [keep_length p g pr (prI I') I' hg hlp]; exact h2 q hq⟩)
+  · show ((dispMap p g g.T).filter fun m => I.contains m.step).map
+        (fun m => { m with var := ((storForm p g pr).keep I).idxOf m.var, step := I.idxOf m.step }) =
+      dispMap p (g.pick I) (g.pick I).T
+    rw [hk, hm]
+    have hnd := pos_nodup g.idx I
+    unfold dispMap
+    by_cases hs : sep p = true
+    · simp only [hs, if_true]
+      rw [hT, List.filter_append, List.map_append, filter_map_range_pos g I _ (fun _ => rfl),
+        filter_map_range_pos g I _ (fun _ => rfl), List.map_map, List.map_map]
+      congr 1
+      · refine (range_map_getD _ _ _ (fun j hj => ?_)).symm
+        simp only [Function.comp]
+        rw [idxOf_append_left _ _ _ (getD_mem_of_lt _ _ hj), idxOf_getD _ hnd j hj, (hat j hj).2.2]
+      · refine (range_map_getD _ _ _ (fun j hj => ?_)).symm
+        simp only [Function.comp]
+        rw [idxOf_two_block_right, idxOf_getD _ hnd j hj, (hat j hj).2.2]
+    · simp only [hs, Bool.false_eq_true, if_false]
+      rw [hT, filter_map_range_pos g I _ (fun _ => rfl), List.map_map]
+      refine (range_map_getD _ _ _ (fun j hj => ?_)).symm
+      simp only [Function.comp]
+      rw [idxOf_getD _ hnd j hj, (hat j hj).2.2]
+
+/-! ## Part E: portfolios -/
+
+theorem keep_pairwise {A : AssetProblem} {T : Nat} (hB : Banded A T) (Is : List (List Nat))
+    (hd : Is.Pairwise fun I J => ∀ t ∈ I, t ∉ J) :
+    Is.Pairwise fun I J => ∀ v ∈ A.keep I, v ∉ A.keep J := by
+  apply List.Pairwise.imp _ hd
+  intro I J hIJ u hu hu'
+  obtain ⟨_, m, hm, hv, hs⟩ := (mem_keep _ _ _).mp hu
+  obtain ⟨_, m', hm', hv', hs'⟩ := (mem_keep _ _ _).mp hu'
+  have := hB.same_step m hm m' hm' (hv.trans hv'.symm)
+  exact hIJ m.step hs (this ▸ hs')
+
+/-- everything the portfolio theorems need to know about ONE storage -/
+theorem storage_restart_facts (p : StorageP) (s e : Int) (df : List Rat) (ref : Grid) (prices : Prices) (u : Nat)
+    (Is : List (List Nat)) (A : AssetProblem)
+    (hidx : ref.idx = List.range ref.T) (hdt : ref.dt.length = ref.T) (hdf : df.length = ref.T)
+    (hprices : ∀ kv ∈ prices, kv.2.length = ref.T)
+    (hdis : Is.Pairwise fun I J => ∀ t ∈ I, t ∉ J)
+    (hst : storageStable p (({ ref with df := df } : Grid).restrict s e) Is = true)
+    (hA : buildSpecS (.storage p s e df) ref prices u = .ok A) :
+    Banded (restartOf Is (.storage p s e df) ref prices A) ref.T ∧
+    RowsInside (restartOf Is (.storage p s e df) ref prices A) Is ∧
+    (∀ ab, intervalSteps ref ab ∈ Is →
+      buildSpecS ((SpecS.storage p s e df).onInterval ref ab) (ref.interval ab.1 ab.2) (intervalPrices ref ab prices) u =
+        .ok ((restartOf Is (.storage p s e df) ref prices A).restrictTo (intervalSteps ref ab))) ∧
+    (p.levelOK = true → ∀ y, (∀ r ∈ (restartOf Is (.storage p s e df) ref prices A).rows, r.Sat y) →
+      ∀ r ∈ A.rows, r.Sat y) := by
+  have hg := restrict_ok ref df s e hidx hdt hdf
+  have hlt : ∀ t ∈ (({ ref with df := df } : Grid).restrict s e).idx, t < ref.T :=
+    restrict_idx_lt ({ ref with df := df } : Grid) s e hidx
+  unfold storageStable at hst
+  simp only [Bool.and_eq_true, decide_eq_true_eq] at hst
+  obtain ⟨⟨hlp, hcs⟩, htl⟩ := hst
+  generalize hgdef : (({ ref with df := df } : Grid).restrict s e) = g at hg hlt htl
+  have hA' : buildStorage p g ref.T prices = .ok A := by rw [← hgdef]; exact hA
+  obtain ⟨pr, rfl, hpr⟩ := buildStorage_form p g ref.T prices A hg hlp hA'
+  have hform := fun I => storageOn_form p g ref.T prices pr I hg hlp hpr
+  let prI : List Nat → Nat → Rat := fun I => Classical.choose (hform I)
+  have hprI := fun I => Classical.choose_spec (hform I)
+  have hfun : storageOn p g prices = fun I' => storForm p (g.pick I') (prI I') := by
+    funext I'; exact (hprI I').2.1
+  have hR : restartOf Is (.storage p s e df) ref prices (storForm p g pr) =
+      (storForm p g pr).withIntervalRows Is (fun I' => storForm p (g.pick I') (prI I')) := by
+    show (storForm p g pr).withIntervalRows Is (storageOn p (({ ref with df := df } : Grid).restrict s e) prices) = _
+    rw [hgdef, hfun]
+  rw [hR]
+  have hrows := restart_rows p g pr prI Is hg hlp
+  have hB0 : Banded (storForm p g pr) ref.T :=
+    storForm_banded p g pr ref.T hg hlp hlt _ (storForm_rows_ok p g pr hlp)
+  have hB : Banded ((storForm p g pr).withIntervalRows Is (fun I' => storForm p (g.pick I') (prI I'))) ref.T := by
+    refine storForm_banded p g pr ref.T hg hlp hlt _ (fun r hr => ?_)
+    obtain ⟨h1, I, _, h2⟩ := hrows r hr
+    exact ⟨h1, fun q hq => ((mem_keep _ _ _).mp (h2 q hq)).1⟩
+  refine ⟨hB, ?_, ?_, ?_⟩
+  · intro r hr
+    obtain ⟨_, I, hI, h2⟩ := hrows r hr
+    exact ⟨I, hI, h2⟩
+  · intro ab hab
+    have hgrid : (({ (ref.interval ab.1 ab.2) with df := sel (ref.mask ab.1 ab.2) df } : Grid).restrict s e) =
+        g.pick (intervalSteps ref ab) := by
+      rw [← hgdef]; exact interval_restrict_eq_pick ref df ab s e hidx
+    show buildStorage p (({ (ref.interval ab.1 ab.2) with df := sel (ref.mask ab.1 ab.2) df } : Grid).restrict s e)
+      (ref.interval ab.1 ab.2).T (intervalPrices ref ab prices) = _
+    rw [hgrid, intervalPrices_eq_pick ref ab prices hidx hprices, interval_T ref ab hidx,
+      (hprI (intervalSteps ref ab)).1,
+      restart_restrict p g pr prI Is (intervalSteps ref ab) hg hlp hcs hab (keep_pairwise hB0 Is hdis)
+        (hprI (intervalSteps ref ab)).2.2]
+  · intro hlev y hy
+    exact restart_rows_imply p g pr prI Is hg hlp hlev htl y (fun I hI r hr =>
+      hy r (List.mem_flatMap.mpr ⟨I, hI, hr⟩))
+
+theorem splitHypsS_spec (specs : List SpecS) (ref : Grid) (cuts : List Int) (prices : Prices)
+    (h : splitHypsS specs ref cuts prices = true) :
+    ref.idx = List.range ref.T ∧ ref.dt.length = ref.T ∧ (∀ a ∈ specs, a.df.length = ref.T) ∧
+    (∀ kv ∈ prices, kv.2.length = ref.T) ∧ isPartition ((splitPairs cuts).map (intervalSteps ref)) ref.T = true ∧
+    ∀ a ∈ specs, match a with
+      | .builder b => ∀ I ∈ (splitPairs cuts).map (intervalSteps ref), specStable b (a.grid ref) I prices = true
+      | .storage p _ _ _ => storageStable p (a.grid ref) ((splitPairs cuts).map (intervalSteps ref)) = true := by
+  unfold splitHypsS at h
+  simp only [Bool.and_eq_true, decide_eq_true_eq, List.all_eq_true] at h
+  obtain ⟨⟨⟨⟨⟨⟨h1, h2⟩, _⟩, h4⟩, h5⟩, h6⟩, h7⟩ := h
+  refine ⟨h1, h2, h4, h5, h6, fun a ha => ?_⟩
+  have := h7 a ha
+  cases a with
+  | builder b =>
+    simp only [List.all_eq_true] at this
+    exact this
+  | storage p s e df => exact this
+
+/-- the relation between the restart form `A'` and the unsplit asset problem `A` -/
+def Weaker (A' A : AssetProblem) : Prop :=
+  A'.name = A.name ∧ A'.nodes = A.nodes ∧ A'.c = A.c ∧ A'.l = A.l ∧ A'.u = A.u ∧ A'.mapping = A.mapping ∧
+  ∀ y, (∀ r ∈ A'.rows, r.Sat y) → ∀ r ∈ A.rows, r.Sat y
+
+def levelOf : SpecS → Bool
+  | .builder _ => true
+  | .storage p _ _ _ => p.levelOK
+
+/-- everything the portfolio theorems need to know about one asset -/
+theorem spec_restart_facts (a : SpecS) (ref : Grid) (prices : Prices) (u : Nat) (Is : List (List Nat))
+    (A : AssetProblem)
+    (hidx : ref.idx = List.range ref.T) (hdt : ref.dt.length = ref.T) (hdf : a.df.length = ref.T)
+    (hprices : ∀ kv ∈ prices, kv.2.length = ref.T)
+    (hcov : ∀ t, t < ref.T → ∃ I ∈ Is, t ∈ I)
+    (hdis : Is.Pairwise fun I J => ∀ t ∈ I, t ∉ J)
+    (hst : match a with
+      | .builder b => ∀ I ∈ Is, specStable b (a.grid ref) I prices = true
+      | .storage p _ _ _ => storageStable p (a.grid ref) Is = true)
+    (hA : buildSpecS a ref prices u = .ok A) :
+    Banded (restartOf Is a ref prices A) ref.T ∧
+    RowsInside (restartOf Is a ref prices A) Is ∧
+    (∀ ab, intervalSteps ref ab ∈ Is →
+      buildSpecS (a.onInterval ref ab) (ref.interval ab.1 ab.2) (intervalPrices ref ab prices) u =
+        .ok ((restartOf Is a ref prices A).restrictTo (intervalSteps ref ab))) ∧
+    (restartOf Is a ref prices A).name = A.name ∧ (restartOf Is a ref prices A).nodes = A.nodes ∧
+    (restartOf Is a ref prices A).c = A.c ∧ (restartOf Is a ref prices A).l = A.l ∧
+    (restartOf Is a ref prices A).u = A.u ∧ (restartOf Is a ref prices A).mapping = A.mapping ∧
+    (levelOf a = true →
+      ∀ y, (∀ r ∈ (restartOf Is a ref prices A).rows, r.Sat y) → ∀ r ∈ A.rows, r.Sat y) := by
+  cases a with
+  | builder b =>
+    have hA' : buildSpec b ref prices u = .ok A := hA
+    refine ⟨buildSpec_banded b ref prices u A hidx hdt hdf hA',
+      buildSpec_rowsInside b ref prices u A Is hidx hdt hdf hcov hst hA',
+      fun ab hab => buildSpec_pick b ref ab prices u A hidx hdt hdf hprices (hst _ hab) hA',
+      rfl, rfl, rfl, rfl, rfl, rfl, fun _ y hy => hy⟩
+  | storage p s e df =>
+    obtain ⟨f1, f2, f3, f4⟩ := storage_restart_facts p s e df ref prices u Is A hidx hdt hdf hprices hdis hst hA
+    exact ⟨f1, f2, f3, rfl, rfl, rfl, rfl, rfl, rfl, f4⟩
+
+/-- the restart form of one asset, as a set-up of its own -/
+def restartSpec (Is : List (List Nat)) (ref : Grid) (prices : Prices) (u : Nat) (a : SpecS) :
+    Except BuildError AssetProblem :=
+  match buildSpecS a ref prices u with
+  | .ok A => .ok (restartOf Is a ref prices A)
+  | .error e => .error e
+
+theorem restartAll_cons (Is : List (List Nat)) (a : SpecS) (specs : List SpecS) (ref : Grid) (prices : Prices)
+    (A : AssetProblem) (as : List AssetProblem) :
+    restartAll Is (a :: specs) ref prices (A :: as) = restartOf Is a ref prices A :: restartAll Is specs ref prices as :=
+  rfl
+
+theorem mapM_restart (Is : List (List Nat)) (ref : Grid) (prices : Prices) (u : Nat) :
+    ∀ (specs : List SpecS) (as : List AssetProblem), buildAllS specs ref prices u = .ok as →
+      specs.mapM (restartSpec Is ref prices u) = .ok (restartAll Is specs ref prices as)
+  | [], as, h => by
+    have : as = [] := by simpa [buildAllS, List.mapM_nil, pure, Except.pure] using h.symm
+    subst this; rfl
+  | a :: specs, as, h => by
+    unfold buildAllS at h
+    obtain ⟨A, as', h1, h2, rfl⟩ := (mapM_ok_cons _ a specs as).mp h
+    rw [mapM_ok_cons]
+    refine ⟨_, _, ?_, mapM_restart Is ref prices u specs as' h2, restartAll_cons Is a specs ref prices A as'⟩
+    unfold restartSpec
+    rw [h1]
+
+theorem restartSpec_ok {Is : List (List Nat)} {ref : Grid} {prices : Prices} {u : Nat} {a : SpecS} {A' : AssetProblem}
+    (h : restartSpec Is ref prices u a = .ok A') :
+    ∃ A, buildSpecS a ref prices u = .ok A ∧ A' = restartOf Is a ref prices A := by
+  unfold restartSpec at h
+  cases hb : buildSpecS a ref prices u with
+  | error e => simp [hb] at h
+  | ok A =>
+    simp only [hb] at h
+    injection h with h
+    exact ⟨A, rfl, h.symm⟩
+
+theorem setupPortfolioS_ok {specs : List SpecS} {grid : Grid} {prices : Prices} {u : Nat} {skip : List String}
+    {U : Problem} (h : setupPortfolioS specs grid prices u skip = .ok U) :
+    ∃ as, buildAllS specs grid prices u = .ok as ∧ U = assemble as grid.idx skip := by
+  unfold setupPortfolioS at h
+  simp only [bind, Except.bind, pure, Except.pure] at h
+  cases has : buildAllS specs grid prices u with
+  | error e => simp [has] at h
+  | ok as =>
+    simp only [has] at h
+    injection h with h
+    exact ⟨as, rfl, h.symm⟩
+
+/-- the hypotheses, asset by asset -/
+def StableAll (specs : List SpecS) (ref : Grid) (prices : Prices) (Is : List (List Nat)) : Prop :=
+  ∀ a ∈ specs, match a with
+    | .builder b => ∀ I ∈ Is, specStable b (a.grid ref) I prices = true
+    | .storage p _ _ _ => storageStable p (a.grid ref) Is = true
+
+theorem restartAll_facts (specs : List SpecS) (ref : Grid) (prices : Prices) (u : Nat) (Is : List (List Nat))
+    (as : List AssetProblem)
+    (hidx : ref.idx = List.range ref.T) (hdt : ref.dt.length = ref.T) (hdf : ∀ a ∈ specs, a.df.length = ref.T)
+    (hprices : ∀ kv ∈ prices, kv.2.length = ref.T)
+    (hcov : ∀ t, t < ref.T → ∃ I ∈ Is, t ∈ I) (hdis : Is.Pairwise fun I J => ∀ t ∈ I, t ∉ J)
+    (hst : StableAll specs ref prices Is) (has : buildAllS specs ref prices u = .ok as) :
+    (∀ A' ∈ restartAll Is specs ref prices as, Banded A' ref.T) ∧
+    (∀ A' ∈ restartAll Is specs ref prices as, RowsInside A' Is) := by
+  have hm := mapM_restart Is ref prices u specs as has
+  constructor
+  · intro A' hA'
+    obtain ⟨a, ha, hb⟩ := mapM_mem _ specs _ hm A' hA'
+    obtain ⟨A, hA, rfl⟩ := restartSpec_ok hb
+    exact (spec_restart_facts a ref prices u Is A hidx hdt (hdf a ha) hprices hcov hdis (hst a ha) hA).1
+  · intro A' hA'
+    obtain ⟨a, ha, hb⟩ := mapM_mem _ specs _ hm A' hA'
+    obtain ⟨A, hA, rfl⟩ := restartSpec_ok hb
+    exact (spec_restart_facts a ref prices u Is A hidx hdt (hdf a ha) hprices hcov hdis (hst a ha) hA).2.1
+
+/-- one pass of the loop returns the interval problem of the RESTART asset problems -/
+theorem setupIntervalS_eq (specs : List SpecS) (ref : Grid) (prices : Prices) (u : Nat) (skip : List String)
+    (Is : List (List Nat)) (ab : Int × Int) (as : List AssetProblem)
+    (hidx : ref.idx = List.range ref.T) (hdt : ref.dt.length = ref.T) (hdf : ∀ a ∈ specs, a.df.length = ref.T)
+    (hprices : ∀ kv ∈ prices, kv.2.length = ref.T)
+    (hcov : ∀ t, t < ref.T → ∃ I ∈ Is, t ∈ I) (hdis : Is.Pairwise fun I J => ∀ t ∈ I, t ∉ J)
+    (hst : StableAll specs ref prices Is) (hab : intervalSteps ref ab ∈ Is)
+    (has : buildAllS specs ref prices u = .ok as) :
+    setupIntervalS specs ref prices u skip ab =
+      .ok (if (intervalProblem (restartAll Is specs ref prices as) skip (intervalSteps ref ab)).n = 0 then none
+           else some (intervalProblem (restartAll Is specs ref prices as) skip (intervalSteps ref ab))) := by
+  obtain ⟨hB, _⟩ := restartAll_facts specs ref prices u Is as hidx hdt hdf hprices hcov hdis hst has
+  have hm := mapM_restart Is ref prices u specs as has
+  unfold setupIntervalS
+  by_cases hT : (ref.interval ab.1 ab.2).T = 0
+  · simp only [hT, if_true]
+    have hI : intervalSteps ref ab = [] :=
+      List.eq_nil_of_length_eq_zero (by rw [← interval_T ref ab hidx]; exact hT)
+    have hn : (intervalProblem (restartAll Is specs ref prices as) skip (intervalSteps ref ab)).n = 0 := by
+      rw [interval_n _ ref.T hB skip, hI]
+      apply List.length_eq_zero_iff.mpr
+      apply List.eq_nil_iff_forall_not_mem.mpr
+      intro v hv
+      obtain ⟨_, m, _, _, hs⟩ := (mem_pkeep _ _ _).mp hv
+      simp at hs
+    rw [if_pos hn]; rfl
+  · simp only [hT, if_false]
+    have hall : buildAllS (specs.map fun a => a.onInterval ref ab) (ref.interval ab.1 ab.2)
+        (intervalPrices ref ab prices) u =
+        .ok ((restartAll Is specs ref prices as).map fun A => A.restrictTo (intervalSteps ref ab)) := by
+      unfold buildAllS
+      exact mapM_transfer _ _ _ _ specs _ hm (fun a ha A' hA' => by
+        obtain ⟨A, hA, rfl⟩ := restartSpec_ok hA'
+        exact (spec_restart_facts a ref prices u Is A hidx hdt (hdf a ha) hprices hcov hdis (hst a ha) hA).2.2.1 ab hab)
+    have hJidx : (ref.interval ab.1 ab.2).idx = List.range (intervalSteps ref ab).length := by
+      show List.range _ = _
+      rw [← interval_T ref ab hidx]; rfl
+    unfold setupPortfolioS
+    simp only [bind, Except.bind, hall, pure, Except.pure, hJidx]
+    show (if (intervalProblem (restartAll Is specs ref prices as) skip (intervalSteps ref ab)).n = 0 then _
+      else Except.ok (some (intervalProblem (restartAll Is specs ref prices as) skip _))) = _
+    split <;> rfl
+
+theorem setupSplitS_eq (specs : List SpecS) (ref : Grid) (cuts : List Int) (prices : Prices) (u : Nat)
+    (skip : List String) (as : List AssetProblem)
+    (hidx : ref.idx = List.range ref.T) (hdt : ref.dt.length = ref.T) (hdf : ∀ a ∈ specs, a.df.length = ref.T)
+    (hprices : ∀ kv ∈ prices, kv.2.length = ref.T)
+    (hcov : ∀ t, t < ref.T → ∃ I ∈ (splitPairs cuts).map (intervalSteps ref), t ∈ I)
+    (hdis : ((splitPairs cuts).map (intervalSteps ref)).Pairwise fun I J => ∀ t ∈ I, t ∉ J)
+    (hst : StableAll specs ref prices ((splitPairs cuts).map (intervalSteps ref)))
+    (has : buildAllS specs ref prices u = .ok as)
+    (hne : (((splitPairs cuts).map (intervalSteps ref)).map
+      (intervalProblem (restartAll ((splitPairs cuts).map (intervalSteps ref)) specs ref prices as) skip)).filter
+        (fun P => P.n != 0) ≠ []) :
+    setupSplitS specs ref cuts prices u skip =
+      .ok ((((splitPairs cuts).map (intervalSteps ref)).map
+        (intervalProblem (restartAll ((splitPairs cuts).map (intervalSteps ref)) specs ref prices as) skip)).filter
+          fun P => P.n != 0) := by
+  unfold setupSplitS
+  generalize hIs : (splitPairs cuts).map (intervalSteps ref) = Is at *
+  generalize hR : restartAll Is specs ref prices as = R at *
+  have hp : (prices.any fun kv => kv.2.length != ref.T) = false := by
+    rw [Bool.eq_false_iff]
+    intro h
+    obtain ⟨kv, hkv, hb⟩ := List.any_eq_true.mp h
+    simp [hprices kv hkv] at hb
+  have hm := mapM_ok_of_forall (setupIntervalS specs ref prices u skip)
+    (fun ab => if (intervalProblem R skip (intervalSteps ref ab)).n = 0 then none
+      else some (intervalProblem R skip (intervalSteps ref ab))) (splitPairs cuts)
+    (fun ab hab => by
+      rw [← hR]
+      exact setupIntervalS_eq specs ref prices u skip Is ab as hidx hdt hdf hprices hcov hdis hst
+        (by rw [← hIs]; exact List.mem_map_of_mem hab) has)
+  have hfm : ((splitPairs cuts).map fun ab => if (intervalProblem R skip (intervalSteps ref ab)).n = 0 then none
+      else some (intervalProblem R skip (intervalSteps ref ab))).filterMap id =
+      (Is.map (intervalProblem R skip)).filter fun P => P.n != 0 := by
+    rw [← filterMap_skip (intervalProblem R skip), ← hIs, List.map_map]
+    rfl
+  simp only [bind, Except.bind, hp, Bool.false_eq_true, if_false, hm, hfm, pure, Except.pure]
+  have : ((Is.map (intervalProblem R skip)).filter fun P => P.n != 0).isEmpty = false := by
+    cases hh : (Is.map (intervalProblem R skip)).filter fun P => P.n != 0 with
+    | nil => exact absurd hh hne
+    | cons _ _ => rfl
+  rw [this]
+  rfl
+
+theorem setupRestart_ok {specs : List SpecS} {ref : Grid} {cuts : List Int} {prices : Prices} {u : Nat}
+    {skip : List String} {R : Problem} (h : setupRestart specs ref cuts prices u skip = .ok R) :
+    ∃ as, buildAllS specs ref prices u = .ok as ∧
+      R = assemble (restartAll ((splitPairs cuts).map (intervalSteps ref)) specs ref prices as) ref.idx skip := by
+  unfold setupRestart at h
+  simp only [bind, Except.bind, pure, Except.pure] at h
+  cases has : buildAllS specs ref prices u with
+  | error e => simp [has] at h
+  | ok as =>
+    simp only [has] at h
+    injection h with h
+    exact ⟨as, rfl, h.symm⟩
+
+/-- **the split set-up of a portfolio with storages IS the restart problem**, up to the explicit matching -/
+theorem restart_split (specs : List SpecS) (ref : Grid) (cuts : List Int) (prices : Prices) (u : Nat)
+    (skip : List String) (R : Problem) (hH : splitHypsS specs ref cuts prices = true)
+    (hR : setupRestart specs ref cuts prices u skip = .ok R) (hpos : 0 < R.n) :
+    ∃ ps, setupSplitS specs ref cuts prices u skip = .ok ps ∧
+      splitWitness R ps (splitPerm R ((splitPairs cuts).map (intervalSteps ref))) = true := by
+  obtain ⟨hidx, hdt, hdf, hprices, hpart, hst⟩ := splitHypsS_spec specs ref cuts prices hH
+  obtain ⟨as, has, rfl⟩ := setupRestart_ok hR
+  obtain ⟨hcov, hdis⟩ := isPartition_spec _ _ hpart
+  obtain ⟨hB, hRI⟩ := restartAll_facts specs ref prices u _ as hidx hdt hdf hprices hcov hdis hst has
+  generalize hIs : (splitPairs cuts).map (intervalSteps ref) = Is at *
+  generalize hRR : restartAll Is specs ref prices as = as' at *
+  rw [hidx] at hpos ⊢
+  have hw := witness_of_banded as' ref.T Is skip hB hpart hRI
+  have hw' := splitWitness_filter _ _ _ (by
+    intro P hP
+    obtain ⟨I, _, rfl⟩ := List.mem_map.mp hP
+    exact intervalProblem_rows_ne as' ref.T hB skip I) hw
+  refine ⟨_, ?_, hw'⟩
+  have := setupSplitS_eq specs ref cuts prices u skip as hidx hdt hdf hprices (by rw [hIs]; exact hcov)
+    (by rw [hIs]; exact hdis) (by rw [hIs]; exact hst) has
+  rw [hIs, hRR] at this
+  apply this
+  -- some interval has a variable, because the restart problem has one
+  intro hnil
+  have hperm := splitPerm_isPerm as' ref.T hB _ hpart
+  have hlen : (Is.flatMap fun I => (assembleFrom 0 as').keep I).length = (assembleFrom 0 as').n := by
+    unfold isPermOf at hperm
+    simp only [Bool.and_eq_true, decide_eq_true_eq] at hperm
+    exact hperm.1.1.1
+  have hall : ∀ I ∈ Is, (assembleFrom 0 as').keep I = [] := by
+    intro I hI
+    have hmem : intervalProblem as' skip I ∈ Is.map (intervalProblem as' skip) := List.mem_map_of_mem hI
+    have : ¬ ((intervalProblem as' skip I).n != 0) = true := by
+      intro hn
+      have : intervalProblem as' skip I ∈ (Is.map (intervalProblem as' skip)).filter fun P => P.n != 0 :=
+        List.mem_filter.mpr ⟨hmem, hn⟩
+      rw [hnil] at this
+      simp at this
+    have hn0 : (intervalProblem as' skip I).n = 0 := by simpa using this
+    rw [interval_n as' ref.T hB skip I] at hn0
+    exact List.eq_nil_of_length_eq_zero hn0
+  have : (Is.flatMap fun I => (assembleFrom 0 as').keep I) = [] := by
+    apply List.eq_nil_iff_forall_not_mem.mpr
+    intro v hv
+    obtain ⟨I, hI, hvI⟩ := List.mem_flatMap.mp hv
+    rw [hall I hI] at hvI
+    simp at hvI
+  rw [this] at hlen
+  have hn : (assemble as' (List.range ref.T) skip).n = (assembleFrom 0 as').n := assemble_n _ _ _
+  rw [hn, ← hlen] at hpos
+  simp at hpos
+
+/-! ### the restart problem is tighter than the unsplit problem -/
+
+def WeakerAll : List AssetProblem → List AssetProblem → Prop
+  | [], [] => True
+  | a' :: as', a :: as => Weaker a' a ∧ WeakerAll as' as
+  | _, _ => False
+
+theorem weaker_assembleFrom : ∀ (as' as : List AssetProblem), WeakerAll as' as → ∀ off,
+    (assembleFrom off as').c = (assembleFrom off as).c ∧ (assembleFrom off as').l = (assembleFrom off as).l ∧
+    (assembleFrom off as').u = (assembleFrom off as).u ∧ (assembleFrom off as').mapping = (assembleFrom off as).mapping ∧
+    as'.flatMap (·.nodes) = as.flatMap (·.nodes) ∧
+    ∀ y, (∀ r ∈ (assembleFrom off as').rows, r.Sat y) → ∀ r ∈ (assembleFrom off as).rows, r.Sat y
+  | [], [], _, _ => ⟨rfl, rfl, rfl, rfl, rfl, fun _ h => h⟩
+  | [], _ :: _, h, _ => h.elim
+  | _ :: _, [], h, _ => h.elim
+  | a' :: as', a :: as, ⟨hw, hrest⟩, off => by
+    obtain ⟨_, w2, w3, w4, w5, w6, w7⟩ := hw
+    have hn : a'.n = a.n := by unfold AssetProblem.n; rw [w3]
+    obtain ⟨i1, i2, i3, i4, i5, i6⟩ := weaker_assembleFrom as' as hrest (off + a.n)
+    refine ⟨?_, ?_, ?_, ?_, ?_, ?_⟩
+    · show a'.c ++ (assembleFrom (off + a'.n) as').c = a.c ++ (assembleFrom (off + a.n) as).c
+      rw [hn, i1, w3]
+    · show a'.l ++ (assembleFrom (off + a'.n) as').l = a.l ++ (assembleFrom (off + a.n) as).l
+      rw [hn, i2, w4]
+    · show a'.u ++ (assembleFrom (off + a'.n) as').u = a.u ++ (assembleFrom (off + a.n) as).u
+      rw [hn, i3, w5]
+    · show a'.mapping.map (MapRow.shift off) ++ (assembleFrom (off + a'.n) as').mapping =
+        a.mapping.map (MapRow.shift off) ++ (assembleFrom (off + a.n) as).mapping
+      rw [hn, i4, w6]
+    · simp only [List.flatMap_cons]
+      rw [w2, i5]
+    · intro y hy r hr
+      have hy' : ∀ r ∈ a'.rows.map (Row.rename (off + ·)) ++ (assembleFrom (off + a'.n) as').rows, r.Sat y := hy
+      have hr' : r ∈ a.rows.map (Row.rename (off + ·)) ++ (assembleFrom (off + a.n) as).rows := hr
+      rcases List.mem_append.mp hr' with h | h
+      · obtain ⟨r0, hr0, rfl⟩ := List.mem_map.mp h
+        rw [sat_rename]
+        apply w7 (fun j => y (off + j)) _ r0 hr0
+        intro r1 hr1
+        rw [← sat_rename]
+        exact hy' _ (List.mem_append_left _ (List.mem_map_of_mem hr1))
+      · apply i6 y _ r h
+        intro r1 hr1
+        apply hy' _ (List.mem_append_right _ _)
+        rw [hn]; exact hr1
+
+/-- the restart problem and the unsplit problem: same variables, costs, bounds, mapping, nodal record; every
+    feasible point of the first is a feasible point of the second -/
+theorem weaker_assemble (as' as : List AssetProblem) (h : WeakerAll as' as) (gridI : List Nat) (skip : List String) :
+    (assemble as' gridI skip).c = (assemble as gridI skip).c ∧ (assemble as' gridI skip).l = (assemble as gridI skip).l ∧
+    (assemble as' gridI skip).u = (assemble as gridI skip).u ∧
+    (assemble as' gridI skip).mapping = (assemble as gridI skip).mapping ∧
+    (assemble as' gridI skip).nodal = (assemble as gridI skip).nodal ∧
+    (∀ y, (assemble as' gridI skip).FeasibleRelaxed y → (assemble as gridI skip).FeasibleRelaxed y) := by
+  obtain ⟨i1, i2, i3, i4, i5, i6⟩ := weaker_assembleFrom as' as h 0
+  have hpn : portfolioNodes as' = portfolioNodes as := by unfold portfolioNodes; rw [i5]
+  refine ⟨i1, i2, i3, i4, ?_, ?_⟩
+  · show nodalPairs (assembleFrom 0 as').mapping (portfolioNodes as') skip gridI =
+      nodalPairs (assembleFrom 0 as).mapping (portfolioNodes as) skip gridI
+    rw [i4, hpn]
+  · intro y hy
+    obtain ⟨hb, hr⟩ := hy
+    have hl : (assemble as' gridI skip).l = (assembleFrom 0 as').l := rfl
+    have hu : (assemble as' gridI skip).u = (assembleFrom 0 as').u := rfl
+    refine ⟨?_, ?_⟩
+    · show InBounds (assembleFrom 0 as).l (assembleFrom 0 as).u y
+      rw [← i2, ← i3]; exact hb
+    · intro r hr'
+      have hr'' : r ∈ (assembleFrom 0 as).rows ++
+          (nodalPairs (assembleFrom 0 as).mapping (portfolioNodes as) skip gridI).map
+            (fun p => nodalRow (assembleFrom 0 as).mapping p.2 p.1) := hr'
+      have hr0 : ∀ r ∈ (assembleFrom 0 as').rows ++
+          (nodalPairs (assembleFrom 0 as').mapping (portfolioNodes as') skip gridI).map
+            (fun p => nodalRow (assembleFrom 0 as').mapping p.2 p.1), r.Sat y := hr
+      rcases List.mem_append.mp hr'' with h1 | h1
+      · exact i6 y (fun r1 hr1 => hr0 r1 (List.mem_append_left _ hr1)) r h1
+      · apply hr0 r (List.mem_append_right _ _)
+        rw [i4, hpn]; exact h1
+
+theorem restartAll_weaker (Is : List (List Nat)) (ref : Grid) (prices : Prices) (u : Nat)
+    (hidx : ref.idx = List.range ref.T) (hdt : ref.dt.length = ref.T)
+    (hprices : ∀ kv ∈ prices, kv.2.length = ref.T)
+    (hcov : ∀ t, t < ref.T → ∃ I ∈ Is, t ∈ I) (hdis : Is.Pairwise fun I J => ∀ t ∈ I, t ∉ J) :
+    ∀ (specs : List SpecS) (as : List AssetProblem), (∀ a ∈ specs, a.df.length = ref.T) →
+      StableAll specs ref prices Is → levelHypsS specs = true → buildAllS specs ref prices u = .ok as →
+      WeakerAll (restartAll Is specs ref prices as) as
+  | [], as, _, _, _, h => by
+    have : as = [] := by simpa [buildAllS, List.mapM_nil, pure, Except.pure] using h.symm
+    subst this; trivial
+  | a :: specs, as, hdf, hst, hlev, h => by
+    unfold buildAllS at h
+    obtain ⟨A, as', h1, h2, rfl⟩ := (mapM_ok_cons _ a specs as).mp h
+    rw [restartAll_cons]
+    unfold levelHypsS at hlev
+    simp only [List.all_cons, Bool.and_eq_true] at hlev
+    obtain ⟨f1, f2, f3, g1, g2, g3, g4, g5, g6, g7⟩ :=
+      spec_restart_facts a ref prices u Is A hidx hdt (hdf a (by simp)) hprices hcov hdis (hst a (by simp)) h1
+    have hl : levelOf a = true := by cases a <;> exact hlev.1
+    exact ⟨⟨g1, g2, g3, g4, g5, g6, g7 hl⟩,
+      restartAll_weaker Is ref prices u hidx hdt hprices hcov hdis specs as'
+        (fun a' ha' => hdf a' (by simp [ha'])) (fun a' ha' => hst a' (by simp [ha'])) hlev.2 h2⟩
+
+/-- the rows of the interval storage on the unsplit variables ARE the level rows of a storage that starts with
+    `start_level` at the interval's first position and pins `end_level` at its last -/
+theorem lift_rows_restart (p : StorageP) (g : Grid) (pr prI : Nat → Rat) (I : List Nat) (hg : g.Ok) (hlp : p.lp = true)
+    (a m : Nat) (hP : pos g.idx I = List.range' a m) (y : Vec) :
+    (∀ r ∈ liftRows (storForm p g pr) I (storForm p (g.pick I) prI), r.Sat y) ↔
+      ∀ i, i < m → (restartUpper p g a m i).Sat y ∧ (restartLower p g a m i).Sat y := by
+  rw [lift_rows_sat p g pr prI I hg hlp a m hP y]
+  have hU : ∀ i, (restartUpper p g a m i).Sat y ↔
+      sumTo (q p g.T y) (a + i + 1) - sumTo (q p g.T y) a ≤
+        (if i + 1 = m then p.endLevel else p.size) - p.startLevel - (cumInfl p g (a + i + 1) - cumInfl p g a) := by
+    intro i
+    show Row.eval ⟨levelCoeffs p g.T a (a + i), _, .U⟩ y ≤ _ ↔ _
+    rw [eval_levelCoeffs]
+    have e : a + (a + i + 1 - a) = a + i + 1 := by omega
+    rw [e]
+    rfl
+  have hL : ∀ i, (restartLower p g a m i).Sat y ↔
+      (if i + 1 = m then p.endLevel else 0) - p.startLevel - (cumInfl p g (a + i + 1) - cumInfl p g a) ≤
+        sumTo (q p g.T y) (a + i + 1) - sumTo (q p g.T y) a := by
+    intro i
+    show _ ≤ Row.eval ⟨levelCoeffs p g.T a (a + i), _, .L⟩ y ↔ _
+    rw [eval_levelCoeffs]
+    have e : a + (a + i + 1 - a) = a + i + 1 := by omega
+    rw [e]
+    rfl
+  constructor
+  · intro h i hi
+    obtain ⟨g1, g2⟩ := h i hi
+    rw [hU, hL]
+    by_cases he : i + 1 = m
+    · simp only [he, if_true] at g1 g2 ⊢
+      constructor <;> grind
+    · simp only [he, if_false] at g1 g2 ⊢
+      constructor <;> grind
+  · intro h i hi
+    obtain ⟨g1, g2⟩ := h i hi
+    rw [hU] at g1
+    rw [hL] at g2
+    by_cases he : i + 1 = m
+    · simp only [he, if_true] at g1 g2 ⊢
+      constructor <;> grind
+    · simp only [he, if_false] at g1 g2 ⊢
+      constructor <;> grind
+
+theorem pkeep_congr (P Q : Problem) (hc : P.c = Q.c) (hm : P.mapping = Q.mapping) (I : List Nat) : P.keep I = Q.keep I := by
+  unfold Problem.keep Problem.n
+  rw [hc, hm]
+
+theorem levelHypsS_spec (specs : List SpecS) (h : levelHypsS specs = true) : ∀ a ∈ specs, levelOf a = true := by
+  intro a ha
+  unfold levelHypsS at h
+  have := List.all_eq_true.mp h a ha
+  cases a <;> exact this
+
+/-- **portfolio level**: under the hypotheses the split set-up succeeds, IS the restart problem `R` (witness true for
+    the explicit matching), and `R` has the variables, costs, bounds, mapping of the unsplit problem `U` and a
+    feasible set inside that of `U` -/
+theorem portfolio_le (specs : List SpecS) (ref : Grid) (cuts : List Int) (prices : Prices) (u : Nat)
+    (skip : List String) (U : Problem) (hH : splitHypsS specs ref cuts prices = true)
+    (hL : levelHypsS specs = true) (hU : setupPortfolioS specs ref prices u skip = .ok U) (hpos : 0 < U.n) :
+    ∃ R ps, setupRestart specs ref cuts prices u skip = .ok R ∧ setupSplitS specs ref cuts prices u skip = .ok ps ∧
+      splitWitness R ps (splitPerm U ((splitPairs cuts).map (intervalSteps ref))) = true ∧
+      R.c = U.c ∧ R.l = U.l ∧ R.u = U.u ∧ R.mapping = U.mapping ∧ R.nodal = U.nodal ∧
+      (∀ y, R.FeasibleRelaxed y → U.FeasibleRelaxed y) ∧ (∀ y, R.Feasible y → U.Feasible y) ∧
+      (∀ y, R.value y = U.value y) := by
+  obtain ⟨hidx, hdt, hdf, hprices, hpart, hst⟩ := splitHypsS_spec specs ref cuts prices hH
+  obtain ⟨as, has, rfl⟩ := setupPortfolioS_ok hU
+  obtain ⟨hcov, hdis⟩ := isPartition_spec _ _ hpart
+  have hW := restartAll_weaker ((splitPairs cuts).map (intervalSteps ref)) ref prices u hidx hdt hprices hcov hdis
+    specs as hdf hst hL has
+  obtain ⟨w1, w2, w3, w4, w5, w6⟩ := weaker_assemble _ _ hW ref.idx skip
+  have hR : setupRestart specs ref cuts prices u skip =
+      .ok (assemble (restartAll ((splitPairs cuts).map (intervalSteps ref)) specs ref prices as) ref.idx skip) := by
+    unfold setupRestart
+    simp only [bind, Except.bind, has, pure, Except.pure]
+  have hn : (assemble (restartAll ((splitPairs cuts).map (intervalSteps ref)) specs ref prices as) ref.idx skip).n =
+      (assemble as ref.idx skip).n := by unfold Problem.n; rw [w1]
+  obtain ⟨ps, hps, hw⟩ := restart_split specs ref cuts prices u skip _ hH hR (by rw [hn]; exact hpos)
+  have hperm : splitPerm (assemble (restartAll ((splitPairs cuts).map (intervalSteps ref)) specs ref prices as) ref.idx skip)
+      ((splitPairs cuts).map (intervalSteps ref)) =
+      splitPerm (assemble as ref.idx skip) ((splitPairs cuts).map (intervalSteps ref)) := by
+    unfold splitPerm
+    congr 1
+    funext I
+    exact pkeep_congr _ _ w1 w4 I
+  rw [hperm] at hw
+  refine ⟨_, ps, hR, hps, hw, w1, w2, w3, w4, w5, w6, fun y hy => ⟨w6 y hy.1, ?_⟩, fun y => ?_⟩
+  · have : (assemble as ref.idx skip).boolVars =
+        (assemble (restartAll ((splitPairs cuts).map (intervalSteps ref)) specs ref prices as) ref.idx skip).boolVars := by
+      unfold Problem.boolVars; rw [w4]
+    rw [this]; exact hy.2
+  · unfold Problem.value; rw [w1]
+
+/-! ## Part F: the cost vectors with `cost_store` -/
+
+theorem q_eq_levelInc : q = Storage.levelInc := rfl
+
+theorem costAt_map_range (F : Nat → Rat) (y : Vec) : ∀ (n off : Nat),
+    costAt ((List.range n).map F) off y = sumTo (fun i => F i * y (off + i)) n
+  | 0, _ => rfl
+  | n + 1, off => by
+    rw [List.range_succ, List.map_append, costAt_append, costAt_map_range F y n off, sumTo_succ]
+    simp only [List.map_cons, List.map_nil, costAt_cons, costAt_nil, List.length_map, List.length_range]
+    grind
+
+/-- cost of the dispatch without storage costs -/
+def baseCost (p : StorageP) (g : Grid) (pr : Nat → Rat) (n : Nat) (y : Vec) (i : Nat) : Rat :=
+  if sep p then (-(p.costIn) - pr i) * Storage.dfAt g i * y i + (p.costOut - pr i) * Storage.dfAt g i * y (n + i)
+  else (0 - pr i * Storage.dfAt g i) * y i
+
+theorem cost_decomp (p : StorageP) (g : Grid) (pr : Nat → Rat) (n : Nat) (hlp : p.lp = true) (y : Vec) :
+    costAt (costVec p g n pr) 0 y =
+      sumTo (baseCost p g pr n y) n + sumTo (fun i => (storeTail p g n).getD i 0 * q p n y i) n := by
+  unfold costVec
+  simp only [nVars_lp p hlp, Nat.sub_self, List.range_zero, List.map_nil, List.append_nil]
+  rw [← sumTo_add]
+  by_cases hs : sep p = true
+  · simp only [hs, if_true]
+    rw [costAt_append, costAt_map_range, costAt_map_range, ← sumTo_add]
+    simp only [List.length_map, List.length_range, Nat.zero_add]
+    apply sumTo_congr
+    intro j _
+    simp only [baseCost, q, hs, if_true]
+    grind
+  · simp only [hs, Bool.false_eq_true, if_false]
+    rw [costAt_map_range]
+    simp only [Nat.zero_add]
+    apply sumTo_congr
+    intro j _
+    simp only [baseCost, q, hs, Bool.false_eq_true, if_false]
+    grind
+
+theorem kk_eq (p : StorageP) (g : Grid) : Textbook.kk p g = Storage.storeRate p g := rfl
+
+theorem storeTail_after (p : StorageP) (g : Grid) (i : Nat) (hi : i < g.T) :
+    (storeTail p g g.T).getD i 0 = Storage.storeAfter p g i := by
+  rw [Textbook.storeTail_getD p g g.T i hi, kk_eq]
+  rfl
+
+theorem rate_pick (p : StorageP) (g : Grid) (I : List Nat) (hg : g.Ok) (a m : Nat)
+    (hP : pos g.idx I = List.range' a m) (k : Nat) (hk : k ≤ m) :
+    sumTo (Storage.storeRate p (g.pick I)) k = sumTo (Storage.storeRate p g) (a + k) - sumTo (Storage.storeRate p g) a := by
+  rw [← sumTo_shift]
+  apply sumTo_congr
+  intro j hj
+  unfold Storage.storeRate
+  have hj' : j < (pos g.idx I).length := by rw [hP]; simp; omega
+  rw [(pick_at g I hg j hj').1, (pick_at g I hg j hj').2.1, hP, range'_getD a m j (by omega)]
+
+/-- **one interval**: cost of the interval storage at the interval's part of `y`, plus the storage costs of all LATER
+    steps on the net level change of the interval, is the part of the unsplit cost that belongs to the interval -/
+theorem interval_cost (p : StorageP) (g : Grid) (pr prI : Nat → Rat) (I : List Nat) (hg : g.Ok) (hlp : p.lp = true)
+    (a m : Nat) (hP : pos g.idx I = List.range' a m)
+    (hprI : ∀ j, j < (pos g.idx I).length → prI j = pr ((pos g.idx I).getD j 0)) (y : Vec) :
+    costAt (storForm p (g.pick I) prI).c 0 (fun v => y (((storForm p g pr).keep I).getD v 0)) +
+      Storage.storeAfter p g (a + m) * (sumTo (q p g.T y) (a + m) - sumTo (q p g.T y) a) =
+    (sumTo (baseCost p g pr g.T y) (a + m) + sumTo (fun i => Storage.storeAfter p g i * q p g.T y i) (a + m)) -
+    (sumTo (baseCost p g pr g.T y) a + sumTo (fun i => Storage.storeAfter p g i * q p g.T y i) a) := by
+  have hm : (g.pick I).T = m := by rw [pick_T g I hg, hP]; simp
+  have hlen : (pos g.idx I).length = m := by rw [hP]; simp
+  have hkeep := fun j hj => keep_getD p g pr I hg hlp a m hP j hj
+  have hpa : ∀ j, j < m → prI j = pr (a + j) ∧ Storage.dfAt (g.pick I) j = Storage.dfAt g (a + j) := by
+    intro j hj
+    have hj' : j < (pos g.idx I).length := by rw [hlen]; exact hj
+    have h1 := hprI j hj'
+    have h2 := (pick_at g I hg j hj').2.1
+    rw [hP, range'_getD a m j hj] at h1 h2
+    exact ⟨h1, h2⟩
+  show costAt (costVec p (g.pick I) (g.pick I).T prI) 0 _ + _ = _
+  rw [hm, cost_decomp p (g.pick I) prI m hlp]
+  have h1 : sumTo (baseCost p (g.pick I) prI m (fun v => y (((storForm p g pr).keep I).getD v 0))) m =
+      sumTo (baseCost p g pr g.T y) (a + m) - sumTo (baseCost p g pr g.T y) a := by
+    rw [← sumTo_shift]
+    apply sumTo_congr
+    intro j hj
+    obtain ⟨k1, k2⟩ := hkeep j hj
+    obtain ⟨p1, p2⟩ := hpa j hj
+    unfold baseCost
+    by_cases hs : sep p = true
+    · simp only [hs, if_true]
+      rw [k1, k2 hs, p1, p2]
+    · simp only [hs, Bool.false_eq_true, if_false]
+      rw [k1, p1, p2]
+  have htl : ∀ j, j < m → (storeTail p (g.pick I) m).getD j 0 =
+      Storage.storeAfter p g (a + j) - Storage.storeAfter p g (a + m) := by
+    intro j hj
+    rw [Textbook.storeTail_getD p (g.pick I) m j hj, kk_eq, rate_pick p g I hg a m hP m (Nat.le_refl m),
+      rate_pick p g I hg a m hP j (by omega)]
+    unfold Storage.storeAfter
+    grind
+  have h2 : sumTo (fun j => (storeTail p (g.pick I) m).getD j 0 *
+        q p m (fun v => y (((storForm p g pr).keep I).getD v 0)) j) m =
+      (sumTo (fun i => Storage.storeAfter p g i * q p g.T y i) (a + m) -
+        sumTo (fun i => Storage.storeAfter p g i * q p g.T y i) a) +
+      (-(Storage.storeAfter p g (a + m))) * (sumTo (q p g.T y) (a + m) - sumTo (q p g.T y) a) := by
+    rw [← sumTo_shift (fun i => Storage.storeAfter p g i * q p g.T y i), ← sumTo_shift (q p g.T y), ← sumTo_mul,
+      ← sumTo_add]
+    apply sumTo_congr
+    intro j hj
+    rw [htl j hj, q_lift p g pr I hg hlp a m hP y j hj]
+    grind
+  rw [h1, h2]
+  grind
+
+theorem tele (H : Nat → Rat) : ∀ (Ps : List (List Nat)) (a N : Nat), Ps.flatten = List.range' a N →
+    (Ps.map fun P => H (P.head?.getD 0 + P.length) - H (P.head?.getD 0)).sum = H (a + N) - H a
+  | [], a, N, h => by
+    have : N = 0 := by
+      have := congrArg List.length h
+      simpa using this.symm
+    subst this
+    show (0 : Rat) = H (a + 0) - H a
+    rw [Nat.add_zero]; grind
+  | P :: rest, a, N, h => by
+    have hlen : P.length + rest.flatten.length = N := by
+      have := congrArg List.length h
+      simpa using this
+    have hsplit : List.range' a N = List.range' a P.length ++ List.range' (a + P.length) (N - P.length) := by
+      rw [List.range'_append_1]
+      congr 1; omega
+    rw [List.flatten_cons, hsplit] at h
+    obtain ⟨hP, hrest⟩ := List.append_inj h (by simp)
+    have ih := tele H rest (a + P.length) (N - P.length) hrest
+    rw [List.map_cons, List.sum_cons, ih]
+    have e : a + P.length + (N - P.length) = a + N := by omega
+    rw [e]
+    by_cases h0 : P.length = 0
+    · have : P = [] := List.eq_nil_of_length_eq_zero h0
+      subst this
+      simp only [List.head?_nil, Option.getD_none, List.length_nil, Nat.add_zero]
+      grind
+    · have hh : P.head?.getD 0 = a := by
+        rw [hP]
+        cases hl : P.length with
+        | zero => exact absurd hl h0
+        | succ k => simp [List.range'_succ]
+      rw [hh]
+      grind
+
+/-- the positions of an interval are `segStart .. segEnd - 1` -/
+theorem seg_of_tiles (g : Grid) (Is : List (List Nat)) (ht : tiles g Is = true) (I : List Nat) (hI : I ∈ Is) :
+    pos g.idx I = List.range' (g.segStart I) (g.posIn I).length := by
+  unfold tiles at ht
+  simp only [decide_eq_true_eq] at ht
+  rw [List.range_eq_range'] at ht
+  obtain ⟨_, t2, _⟩ := tiles_segs (Is.map g.posIn) 0 g.T ht
+  obtain ⟨s, _, hs⟩ := t2 (g.posIn I) (List.mem_map_of_mem hI)
+  show g.posIn I = _
+  unfold Grid.segStart
+  by_cases h0 : s.2 = 0
+  · rw [h0] at hs
+    rw [hs]
+    rfl
+  · have hh : (g.posIn I).head?.getD 0 = s.1 := by
+      rw [hs]
+      cases hl : s.2 with
+      | zero => exact absurd hl h0
+      | succ k => simp [List.range'_succ]
+    have hl : (g.posIn I).length = s.2 := by rw [hs]; simp
+    rw [hh, hl]
+    exact hs
+
+/-- **the unsplit cost of a dispatch = the interval costs + the storage costs of the later steps on the net level
+    change of every interval** (LP storage, any `cost_store`, intervals cutting the grid into consecutive pieces) -/
+theorem storForm_cost_split (p : StorageP) (g : Grid) (pr : Nat → Rat) (prI : List Nat → Nat → Rat)
+    (Is : List (List Nat)) (hg : g.Ok) (hlp : p.lp = true) (ht : tiles g Is = true)
+    (hprI : ∀ I ∈ Is, ∀ j, j < (pos g.idx I).length → prI I j = pr ((pos g.idx I).getD j 0)) (y : Vec) :
+    costAt (storForm p g pr).c 0 y =
+      (Is.map fun I =>
+        costAt (storForm p (g.pick I) (prI I)).c 0 (fun v => y (((storForm p g pr).keep I).getD v 0)) +
+        Storage.storeAfter p g (g.segEnd I) *
+          (sumTo (Storage.levelInc p g.T y) (g.segEnd I) - sumTo (Storage.levelInc p g.T y) (g.segStart I))).sum := by
+  let H : Nat → Rat := fun t => sumTo (baseCost p g pr g.T y) t + sumTo (fun i => Storage.storeAfter p g i * q p g.T y i) t
+  have hterm : ∀ I ∈ Is,
+      costAt (storForm p (g.pick I) (prI I)).c 0 (fun v => y (((storForm p g pr).keep I).getD v 0)) +
+        Storage.storeAfter p g (g.segEnd I) *
+          (sumTo (Storage.levelInc p g.T y) (g.segEnd I) - sumTo (Storage.levelInc p g.T y) (g.segStart I)) =
+      H ((g.posIn I).head?.getD 0 + (g.posIn I).length) - H ((g.posIn I).head?.getD 0) := by
+    intro I hI
+    exact interval_cost p g pr (prI I) I hg hlp (g.segStart I) (g.posIn I).length (seg_of_tiles g Is ht I hI)
+      (hprI I hI) y
+  rw [List.map_congr_left hterm]
+  have hmm : (Is.map fun I => H ((g.posIn I).head?.getD 0 + (g.posIn I).length) - H ((g.posIn I).head?.getD 0)) =
+      (Is.map g.posIn).map fun P => H (P.head?.getD 0 + P.length) - H (P.head?.getD 0) := by
+    rw [List.map_map]; rfl
+  have htl := ht
+  unfold tiles at htl
+  simp only [decide_eq_true_eq] at htl
+  rw [List.range_eq_range'] at htl
+  rw [hmm, tele H (Is.map g.posIn) 0 g.T htl, Nat.zero_add]
+  show costAt (costVec p g g.T pr) 0 y = _
+  rw [cost_decomp p g pr g.T hlp y]
+  have : sumTo (fun i => (storeTail p g g.T).getD i 0 * q p g.T y i) g.T =
+      sumTo (fun i => Storage.storeAfter p g i * q p g.T y i) g.T :=
+    sumTo_congr _ _ _ (fun j hj => by rw [storeTail_after p g j hj])
+  rw [this]
+  show _ = H g.T - ((0 : Rat) + 0)
+  grind
+
+/-- on a point that satisfies the level rows of an interval, the net level change of the interval is pinned by its
+    end-level rows (start level = end level: minus the inflow of the interval) -/
+theorem net_change (p : StorageP) (g : Grid) (pr prI : Nat → Rat) (I : List Nat) (hg : g.Ok) (hlp : p.lp = true)
+    (hse : p.startLevel = p.endLevel) (a m : Nat) (hP : pos g.idx I = List.range' a m) (y : Vec)
+    (h : ∀ r ∈ liftRows (storForm p g pr) I (storForm p (g.pick I) prI), r.Sat y) :
+    sumTo (q p g.T y) (a + m) - sumTo (q p g.T y) a = -(cumInfl p g (a + m) - cumInfl p g a) := by
+  by_cases h0 : m = 0
+  · subst h0
+    simp only [Nat.add_zero]
+    grind
+  · have := (lift_rows_sat p g pr prI I hg hlp a m hP y).mp h (m - 1) (by omega)
+    have e1 : m - 1 + 1 = m := by omega
+    have e2 : a + (m - 1) + 1 = a + m := by omega
+    simp only [e1, e2, if_true] at this
+    obtain ⟨g1, g2⟩ := this
+    grind
+
+/-- start level = end level: on restart-feasible points the unsplit cost is the sum of the interval costs minus a
+    CONSTANT — the storage costs of the later steps on the inflow of every interval -/
+theorem storForm_cost_const (p : StorageP) (g : Grid) (pr : Nat → Rat) (prI : List Nat → Nat → Rat)
+    (Is : List (List Nat)) (hg : g.Ok) (hlp : p.lp = true) (ht : tiles g Is = true)
+    (hse : p.startLevel = p.endLevel)
+    (hprI : ∀ I ∈ Is, ∀ j, j < (pos g.idx I).length → prI I j = pr ((pos g.idx I).getD j 0)) (y : Vec)
+    (h : ∀ I ∈ Is, ∀ r ∈ liftRows (storForm p g pr) I (storForm p (g.pick I) (prI I)), r.Sat y) :
+    costAt (storForm p g pr).c 0 y =
+      (Is.map fun I =>
+        costAt (storForm p (g.pick I) (prI I)).c 0 (fun v => y (((storForm p g pr).keep I).getD v 0)) +
+        Storage.storeAfter p g (g.segEnd I) * -(cumInfl p g (g.segEnd I) - cumInfl p g (g.segStart I))).sum := by
+  rw [storForm_cost_split p g pr prI Is hg hlp ht hprI y]
+  congr 1
+  apply List.map_congr_left
+  intro I hI
+  have := net_change p g pr (prI I) I hg hlp hse (g.segStart I) (g.posIn I).length (seg_of_tiles g Is ht I hI) y (h I hI)
+  rw [← q_eq_levelInc]
+  show _ + _ * (sumTo (q p g.T y) (g.segStart I + (g.posIn I).length) - _) = _
+  rw [this]
+  rfl
 
 end EAO.SplitStorage
